@@ -7,50 +7,50 @@ open ImathVerif
 
 /-- extracted from the C++ template at T = Sym; 1 path(s) -/
 def Euler.M44_setEulerAngles {α : Type} [Add α] [Mul α] [Neg α] [OfNat α 0] [OfNat α 1] (sin : α → α) (cos : α → α) (r : V3 α) : (M44 α) :=
-  let t8671 := (cos r.z)
-  let t8672 := (cos r.y)
-  let t8673 := (cos r.x)
-  let t8674 := (sin r.z)
-  let t8675 := (sin r.y)
-  let t8676 := (sin r.x)
-  let t8680 := (t8671 * t8675)
-  let t8685 := (t8674 * t8675)
-  ⟨(t8671 * t8672), (t8674 * t8672), (-t8675), (0 : α), (((-t8674) * t8673) + (t8680 * t8676)), ((t8671 * t8673) + (t8685 * t8676)), (t8672 * t8676), (0 : α), ((t8674 * t8676) + (t8680 * t8673)), (((-t8671) * t8676) + (t8685 * t8673)), (t8672 * t8673), (0 : α), (0 : α), (0 : α), (0 : α), (1 : α)⟩
+  let t8610 := (cos r.z)
+  let t8611 := (cos r.y)
+  let t8612 := (cos r.x)
+  let t8613 := (sin r.z)
+  let t8614 := (sin r.y)
+  let t8615 := (sin r.x)
+  let t8619 := (t8610 * t8614)
+  let t8624 := (t8613 * t8614)
+  ⟨(t8610 * t8611), (t8613 * t8611), (-t8614), (0 : α), (((-t8613) * t8612) + (t8619 * t8615)), ((t8610 * t8612) + (t8624 * t8615)), (t8611 * t8615), (0 : α), ((t8613 * t8615) + (t8619 * t8612)), (((-t8610) * t8615) + (t8624 * t8612)), (t8611 * t8612), (0 : α), (0 : α), (0 : α), (0 : α), (1 : α)⟩
 
 /-- extracted from the C++ template at T = Sym; 1 path(s) -/
 def Euler.M44_rotate {α : Type} [Add α] [Mul α] [Neg α] (sin : α → α) (cos : α → α) (m : M44 α) (r : V3 α) : (M44 α) :=
-  let t8671 := (cos r.z)
-  let t8672 := (cos r.y)
-  let t8673 := (cos r.x)
-  let t8674 := (sin r.z)
-  let t8675 := (sin r.y)
-  let t8676 := (sin r.x)
-  let t8677 := (t8671 * t8672)
-  let t8678 := (t8674 * t8672)
-  let t8679 := (-t8675)
-  let t8680 := (t8671 * t8675)
-  let t8682 := (-t8674)
-  let t8684 := ((t8682 * t8673) + (t8680 * t8676))
-  let t8685 := (t8674 * t8675)
-  let t8688 := ((t8671 * t8673) + (t8685 * t8676))
-  let t8689 := (t8672 * t8676)
-  let t8697 := (t8672 * t8673)
-  let t8698 := (-t8676)
-  let t8700 := ((t8682 * t8698) + (t8680 * t8673))
-  let t8702 := ((t8671 * t8698) + (t8685 * t8673))
-  ⟨(((m.x00 * t8677) + (m.x10 * t8678)) + (m.x20 * t8679)), (((m.x01 * t8677) + (m.x11 * t8678)) + (m.x21 * t8679)), (((m.x02 * t8677) + (m.x12 * t8678)) + (m.x22 * t8679)), (((m.x03 * t8677) + (m.x13 * t8678)) + (m.x23 * t8679)), (((m.x00 * t8684) + (m.x10 * t8688)) + (m.x20 * t8689)), (((m.x01 * t8684) + (m.x11 * t8688)) + (m.x21 * t8689)), (((m.x02 * t8684) + (m.x12 * t8688)) + (m.x22 * t8689)), (((m.x03 * t8684) + (m.x13 * t8688)) + (m.x23 * t8689)), (((m.x00 * t8700) + (m.x10 * t8702)) + (m.x20 * t8697)), (((m.x01 * t8700) + (m.x11 * t8702)) + (m.x21 * t8697)), (((m.x02 * t8700) + (m.x12 * t8702)) + (m.x22 * t8697)), (((m.x03 * t8700) + (m.x13 * t8702)) + (m.x23 * t8697)), m.x30, m.x31, m.x32, m.x33⟩
+  let t8610 := (cos r.z)
+  let t8611 := (cos r.y)
+  let t8612 := (cos r.x)
+  let t8613 := (sin r.z)
+  let t8614 := (sin r.y)
+  let t8615 := (sin r.x)
+  let t8616 := (t8610 * t8611)
+  let t8617 := (t8613 * t8611)
+  let t8618 := (-t8614)
+  let t8619 := (t8610 * t8614)
+  let t8621 := (-t8613)
+  let t8623 := ((t8621 * t8612) + (t8619 * t8615))
+  let t8624 := (t8613 * t8614)
+  let t8627 := ((t8610 * t8612) + (t8624 * t8615))
+  let t8628 := (t8611 * t8615)
+  let t8636 := (t8611 * t8612)
+  let t8637 := (-t8615)
+  let t8639 := ((t8621 * t8637) + (t8619 * t8612))
+  let t8641 := ((t8610 * t8637) + (t8624 * t8612))
+  ⟨(((m.x00 * t8616) + (m.x10 * t8617)) + (m.x20 * t8618)), (((m.x01 * t8616) + (m.x11 * t8617)) + (m.x21 * t8618)), (((m.x02 * t8616) + (m.x12 * t8617)) + (m.x22 * t8618)), (((m.x03 * t8616) + (m.x13 * t8617)) + (m.x23 * t8618)), (((m.x00 * t8623) + (m.x10 * t8627)) + (m.x20 * t8628)), (((m.x01 * t8623) + (m.x11 * t8627)) + (m.x21 * t8628)), (((m.x02 * t8623) + (m.x12 * t8627)) + (m.x22 * t8628)), (((m.x03 * t8623) + (m.x13 * t8627)) + (m.x23 * t8628)), (((m.x00 * t8639) + (m.x10 * t8641)) + (m.x20 * t8636)), (((m.x01 * t8639) + (m.x11 * t8641)) + (m.x21 * t8636)), (((m.x02 * t8639) + (m.x12 * t8641)) + (m.x22 * t8636)), (((m.x03 * t8639) + (m.x13 * t8641)) + (m.x23 * t8636)), m.x30, m.x31, m.x32, m.x33⟩
 
 /-- extracted from the C++ template at T = Sym; 1 path(s) -/
 def Euler.M33_setRotation {α : Type} [Neg α] [OfNat α 0] [OfNat α 1] (sin : α → α) (cos : α → α) (r : α) : (M33 α) :=
-  let t8764 := (cos r)
-  let t8765 := (sin r)
-  ⟨t8764, t8765, (0 : α), (-t8765), t8764, (0 : α), (0 : α), (0 : α), (1 : α)⟩
+  let t8703 := (cos r)
+  let t8704 := (sin r)
+  ⟨t8703, t8704, (0 : α), (-t8704), t8703, (0 : α), (0 : α), (0 : α), (1 : α)⟩
 
 /-- extracted from the C++ template at T = Sym; 1 path(s) -/
 def Euler.M22_setRotation {α : Type} [Neg α] (sin : α → α) (cos : α → α) (r : α) : (M22 α) :=
-  let t8764 := (cos r)
-  let t8765 := (sin r)
-  ⟨t8764, t8765, (-t8765), t8764⟩
+  let t8703 := (cos r)
+  let t8704 := (sin r)
+  ⟨t8703, t8704, (-t8704), t8703⟩
 
 /-- extracted from the C++ template at T = Sym; 1 path(s) -/
 def Euler.Quat_toMatrix33 {α : Type} [Add α] [Sub α] [Mul α] [OfNat α 1] [OfNat α 2] (q : Quat α) : (M33 α) :=
@@ -128,128 +128,128 @@ def Euler.extractEulerXYZ {α : Type} [Add α] [Mul α] [Div α] [Neg α] [LT α
   let t156 := (t110 * m.x10)
   let t161 := (t113 * m.x21)
   let t162 := (t110 * m.x11)
-  let t8767 := (V3.length tmin sqrt ⟨m.x00, m.x01, m.x02⟩)
-  let t8768 := (V3.length tmin sqrt ⟨m.x10, m.x11, m.x12⟩)
-  let t8769 := (V3.length tmin sqrt ⟨m.x20, m.x21, m.x22⟩)
-  let t8770 := (m.x20 / t8769)
-  let t8771 := (m.x21 / t8769)
-  let t8772 := (m.x22 / t8769)
-  let t8773 := (atan2 m.x12 t8772)
-  let t8774 := (-t8773)
-  let t8775 := (cos t8774)
-  let t8776 := (sin t8774)
-  let t8779 := ((t72 * t8775) + (t73 * t8776))
-  let t8782 := ((t66 * t8775) + (t77 * t8776))
-  let t8783 := (t66 * t8776)
-  let t8791 := ((0 : α) * t8783)
-  let t8792 := ((0 : α) * t8782)
-  let t8795 := ((((1 : α) * t8779) + t8792) + t8791)
-  let t8797 := ((0 : α) * t8779)
-  let t8799 := ((t8797 + ((1 : α) * t8782)) + t8791)
-  let t8801 := (t8797 + t8792)
-  let t8802 := (t8801 + ((1 : α) * t8783))
-  let t8817 := (t100 * t8770)
-  let t8819 := ((t132 + t8817) + t128)
-  let t8820 := (t100 * t8771)
-  let t8822 := ((t138 + t8820) + t128)
-  let t8823 := (t100 * t8772)
-  let t8826 := ((t8801 + t8791) * (0 : α))
-  let t8827 := (t8802 * t8770)
-  let t8828 := (t8799 * m.x10)
-  let t8833 := (t8802 * t8771)
-  let t8834 := (t8799 * m.x11)
-  let t8895 := (m.x10 / t8768)
-  let t8896 := (m.x11 / t8768)
-  let t8897 := (m.x12 / t8768)
-  let t8898 := (atan2 t8897 m.x22)
-  let t8899 := (-t8898)
-  let t8900 := (cos t8899)
-  let t8901 := (sin t8899)
-  let t8904 := ((t72 * t8900) + (t73 * t8901))
-  let t8907 := ((t66 * t8900) + (t77 * t8901))
-  let t8908 := (t66 * t8901)
-  let t8916 := ((0 : α) * t8908)
-  let t8917 := ((0 : α) * t8907)
-  let t8920 := ((((1 : α) * t8904) + t8917) + t8916)
-  let t8922 := ((0 : α) * t8904)
-  let t8924 := ((t8922 + ((1 : α) * t8907)) + t8916)
-  let t8926 := (t8922 + t8917)
-  let t8927 := (t8926 + ((1 : α) * t8908))
-  let t8942 := (t97 * t8895)
-  let t8943 := (t131 + t8942)
-  let t8945 := ((t8943 + t129) + t128)
-  let t8946 := (t97 * t8896)
-  let t8947 := (t137 + t8946)
-  let t8949 := ((t8947 + t135) + t128)
-  let t8950 := (t97 * t8897)
-  let t8951 := (t143 + t8950)
-  let t8954 := ((t8926 + t8916) * (0 : α))
-  let t8955 := (t8927 * m.x20)
-  let t8956 := (t8924 * t8895)
-  let t8961 := (t8927 * m.x21)
-  let t8962 := (t8924 * t8896)
-  let t9026 := (atan2 t8897 t8772)
-  let t9027 := (-t9026)
-  let t9028 := (cos t9027)
-  let t9029 := (sin t9027)
-  let t9032 := ((t72 * t9028) + (t73 * t9029))
-  let t9035 := ((t66 * t9028) + (t77 * t9029))
-  let t9036 := (t66 * t9029)
-  let t9044 := ((0 : α) * t9036)
-  let t9045 := ((0 : α) * t9035)
-  let t9048 := ((((1 : α) * t9032) + t9045) + t9044)
-  let t9050 := ((0 : α) * t9032)
-  let t9052 := ((t9050 + ((1 : α) * t9035)) + t9044)
-  let t9054 := (t9050 + t9045)
-  let t9055 := (t9054 + ((1 : α) * t9036))
-  let t9071 := ((t8943 + t8817) + t128)
-  let t9073 := ((t8947 + t8820) + t128)
-  let t9076 := ((t9054 + t9044) * (0 : α))
-  let t9077 := (t9055 * t8770)
-  let t9078 := (t9052 * t8895)
-  let t9083 := (t9055 * t8771)
-  let t9084 := (t9052 * t8896)
-  let t9142 := (m.x00 / t8767)
-  let t9143 := (m.x01 / t8767)
-  let t9145 := (t93 * t9142)
-  let t9146 := (t9145 + t130)
-  let t9148 := ((t9146 + t129) + t128)
-  let t9149 := (t93 * t9143)
-  let t9150 := (t9149 + t136)
-  let t9152 := ((t9150 + t135) + t128)
-  let t9153 := (t93 * (m.x02 / t8767))
-  let t9154 := (t9153 + t142)
-  let t9202 := ((t9146 + t8817) + t128)
-  let t9204 := ((t9150 + t8820) + t128)
-  let t9245 := (t9145 + t8942)
-  let t9247 := ((t9245 + t129) + t128)
-  let t9248 := (t9149 + t8946)
-  let t9250 := ((t9248 + t135) + t128)
-  let t9251 := (t9153 + t8950)
-  let t9296 := ((t9245 + t8817) + t128)
-  let t9298 := ((t9248 + t8820) + t128)
-  if t8767 = (0 : α) then
-    if t8768 = (0 : α) then
-      if t8769 = (0 : α) then
+  let t8706 := (V3.length tmin sqrt ⟨m.x00, m.x01, m.x02⟩)
+  let t8707 := (V3.length tmin sqrt ⟨m.x10, m.x11, m.x12⟩)
+  let t8708 := (V3.length tmin sqrt ⟨m.x20, m.x21, m.x22⟩)
+  let t8709 := (m.x20 / t8708)
+  let t8710 := (m.x21 / t8708)
+  let t8711 := (m.x22 / t8708)
+  let t8712 := (atan2 m.x12 t8711)
+  let t8713 := (-t8712)
+  let t8714 := (cos t8713)
+  let t8715 := (sin t8713)
+  let t8718 := ((t72 * t8714) + (t73 * t8715))
+  let t8721 := ((t66 * t8714) + (t77 * t8715))
+  let t8722 := (t66 * t8715)
+  let t8730 := ((0 : α) * t8722)
+  let t8731 := ((0 : α) * t8721)
+  let t8734 := ((((1 : α) * t8718) + t8731) + t8730)
+  let t8736 := ((0 : α) * t8718)
+  let t8738 := ((t8736 + ((1 : α) * t8721)) + t8730)
+  let t8740 := (t8736 + t8731)
+  let t8741 := (t8740 + ((1 : α) * t8722))
+  let t8756 := (t100 * t8709)
+  let t8758 := ((t132 + t8756) + t128)
+  let t8759 := (t100 * t8710)
+  let t8761 := ((t138 + t8759) + t128)
+  let t8762 := (t100 * t8711)
+  let t8765 := ((t8740 + t8730) * (0 : α))
+  let t8766 := (t8741 * t8709)
+  let t8767 := (t8738 * m.x10)
+  let t8772 := (t8741 * t8710)
+  let t8773 := (t8738 * m.x11)
+  let t8834 := (m.x10 / t8707)
+  let t8835 := (m.x11 / t8707)
+  let t8836 := (m.x12 / t8707)
+  let t8837 := (atan2 t8836 m.x22)
+  let t8838 := (-t8837)
+  let t8839 := (cos t8838)
+  let t8840 := (sin t8838)
+  let t8843 := ((t72 * t8839) + (t73 * t8840))
+  let t8846 := ((t66 * t8839) + (t77 * t8840))
+  let t8847 := (t66 * t8840)
+  let t8855 := ((0 : α) * t8847)
+  let t8856 := ((0 : α) * t8846)
+  let t8859 := ((((1 : α) * t8843) + t8856) + t8855)
+  let t8861 := ((0 : α) * t8843)
+  let t8863 := ((t8861 + ((1 : α) * t8846)) + t8855)
+  let t8865 := (t8861 + t8856)
+  let t8866 := (t8865 + ((1 : α) * t8847))
+  let t8881 := (t97 * t8834)
+  let t8882 := (t131 + t8881)
+  let t8884 := ((t8882 + t129) + t128)
+  let t8885 := (t97 * t8835)
+  let t8886 := (t137 + t8885)
+  let t8888 := ((t8886 + t135) + t128)
+  let t8889 := (t97 * t8836)
+  let t8890 := (t143 + t8889)
+  let t8893 := ((t8865 + t8855) * (0 : α))
+  let t8894 := (t8866 * m.x20)
+  let t8895 := (t8863 * t8834)
+  let t8900 := (t8866 * m.x21)
+  let t8901 := (t8863 * t8835)
+  let t8965 := (atan2 t8836 t8711)
+  let t8966 := (-t8965)
+  let t8967 := (cos t8966)
+  let t8968 := (sin t8966)
+  let t8971 := ((t72 * t8967) + (t73 * t8968))
+  let t8974 := ((t66 * t8967) + (t77 * t8968))
+  let t8975 := (t66 * t8968)
+  let t8983 := ((0 : α) * t8975)
+  let t8984 := ((0 : α) * t8974)
+  let t8987 := ((((1 : α) * t8971) + t8984) + t8983)
+  let t8989 := ((0 : α) * t8971)
+  let t8991 := ((t8989 + ((1 : α) * t8974)) + t8983)
+  let t8993 := (t8989 + t8984)
+  let t8994 := (t8993 + ((1 : α) * t8975))
+  let t9010 := ((t8882 + t8756) + t128)
+  let t9012 := ((t8886 + t8759) + t128)
+  let t9015 := ((t8993 + t8983) * (0 : α))
+  let t9016 := (t8994 * t8709)
+  let t9017 := (t8991 * t8834)
+  let t9022 := (t8994 * t8710)
+  let t9023 := (t8991 * t8835)
+  let t9081 := (m.x00 / t8706)
+  let t9082 := (m.x01 / t8706)
+  let t9084 := (t93 * t9081)
+  let t9085 := (t9084 + t130)
+  let t9087 := ((t9085 + t129) + t128)
+  let t9088 := (t93 * t9082)
+  let t9089 := (t9088 + t136)
+  let t9091 := ((t9089 + t135) + t128)
+  let t9092 := (t93 * (m.x02 / t8706))
+  let t9093 := (t9092 + t142)
+  let t9141 := ((t9085 + t8756) + t128)
+  let t9143 := ((t9089 + t8759) + t128)
+  let t9184 := (t9084 + t8881)
+  let t9186 := ((t9184 + t129) + t128)
+  let t9187 := (t9088 + t8885)
+  let t9189 := ((t9187 + t135) + t128)
+  let t9190 := (t9092 + t8889)
+  let t9235 := ((t9184 + t8756) + t128)
+  let t9237 := ((t9187 + t8759) + t128)
+  if t8706 = (0 : α) then
+    if t8707 = (0 : α) then
+      if t8708 = (0 : α) then
         ⟨t64, (atan2 (-((t144 + t141) + t128)) (sqrt ((t134 * t134) + (t140 * t140)))), (atan2 (-((((t106 * m.x00) + t156) + t155) + t154)) ((((t106 * m.x01) + t162) + t161) + t154))⟩
       else
-        ⟨t8773, (atan2 (-((t144 + t8823) + t128)) (sqrt ((t8819 * t8819) + (t8822 * t8822)))), (atan2 (-((((t8795 * m.x00) + t8828) + t8827) + t8826)) ((((t8795 * m.x01) + t8834) + t8833) + t8826))⟩
+        ⟨t8712, (atan2 (-((t144 + t8762) + t128)) (sqrt ((t8758 * t8758) + (t8761 * t8761)))), (atan2 (-((((t8734 * m.x00) + t8767) + t8766) + t8765)) ((((t8734 * m.x01) + t8773) + t8772) + t8765))⟩
     else
-      if t8769 = (0 : α) then
-        ⟨t8898, (atan2 (-((t8951 + t141) + t128)) (sqrt ((t8945 * t8945) + (t8949 * t8949)))), (atan2 (-((((t8920 * m.x00) + t8956) + t8955) + t8954)) ((((t8920 * m.x01) + t8962) + t8961) + t8954))⟩
+      if t8708 = (0 : α) then
+        ⟨t8837, (atan2 (-((t8890 + t141) + t128)) (sqrt ((t8884 * t8884) + (t8888 * t8888)))), (atan2 (-((((t8859 * m.x00) + t8895) + t8894) + t8893)) ((((t8859 * m.x01) + t8901) + t8900) + t8893))⟩
       else
-        ⟨t9026, (atan2 (-((t8951 + t8823) + t128)) (sqrt ((t9071 * t9071) + (t9073 * t9073)))), (atan2 (-((((t9048 * m.x00) + t9078) + t9077) + t9076)) ((((t9048 * m.x01) + t9084) + t9083) + t9076))⟩
+        ⟨t8965, (atan2 (-((t8890 + t8762) + t128)) (sqrt ((t9010 * t9010) + (t9012 * t9012)))), (atan2 (-((((t8987 * m.x00) + t9017) + t9016) + t9015)) ((((t8987 * m.x01) + t9023) + t9022) + t9015))⟩
   else
-    if t8768 = (0 : α) then
-      if t8769 = (0 : α) then
-        ⟨t64, (atan2 (-((t9154 + t141) + t128)) (sqrt ((t9148 * t9148) + (t9152 * t9152)))), (atan2 (-((((t106 * t9142) + t156) + t155) + t154)) ((((t106 * t9143) + t162) + t161) + t154))⟩
+    if t8707 = (0 : α) then
+      if t8708 = (0 : α) then
+        ⟨t64, (atan2 (-((t9093 + t141) + t128)) (sqrt ((t9087 * t9087) + (t9091 * t9091)))), (atan2 (-((((t106 * t9081) + t156) + t155) + t154)) ((((t106 * t9082) + t162) + t161) + t154))⟩
       else
-        ⟨t8773, (atan2 (-((t9154 + t8823) + t128)) (sqrt ((t9202 * t9202) + (t9204 * t9204)))), (atan2 (-((((t8795 * t9142) + t8828) + t8827) + t8826)) ((((t8795 * t9143) + t8834) + t8833) + t8826))⟩
+        ⟨t8712, (atan2 (-((t9093 + t8762) + t128)) (sqrt ((t9141 * t9141) + (t9143 * t9143)))), (atan2 (-((((t8734 * t9081) + t8767) + t8766) + t8765)) ((((t8734 * t9082) + t8773) + t8772) + t8765))⟩
     else
-      if t8769 = (0 : α) then
-        ⟨t8898, (atan2 (-((t9251 + t141) + t128)) (sqrt ((t9247 * t9247) + (t9250 * t9250)))), (atan2 (-((((t8920 * t9142) + t8956) + t8955) + t8954)) ((((t8920 * t9143) + t8962) + t8961) + t8954))⟩
+      if t8708 = (0 : α) then
+        ⟨t8837, (atan2 (-((t9190 + t141) + t128)) (sqrt ((t9186 * t9186) + (t9189 * t9189)))), (atan2 (-((((t8859 * t9081) + t8895) + t8894) + t8893)) ((((t8859 * t9082) + t8901) + t8900) + t8893))⟩
       else
-        ⟨t9026, (atan2 (-((t9251 + t8823) + t128)) (sqrt ((t9296 * t9296) + (t9298 * t9298)))), (atan2 (-((((t9048 * t9142) + t9078) + t9077) + t9076)) ((((t9048 * t9143) + t9084) + t9083) + t9076))⟩
+        ⟨t8965, (atan2 (-((t9190 + t8762) + t128)) (sqrt ((t9235 * t9235) + (t9237 * t9237)))), (atan2 (-((((t8987 * t9081) + t9017) + t9016) + t9015)) ((((t8987 * t9082) + t9023) + t9022) + t9015))⟩
 
 /-- extracted from the C++ template at T = Sym; 8 path(s) -/
 def Euler.extractEulerZYX {α : Type} [Add α] [Mul α] [Div α] [Neg α] [LT α] [LE α] [DecidableLT α] [DecidableLE α] [DecidableEq α] [OfNat α 0] [OfNat α 1] [OfNat α 2] (tmin : α) (sqrt : α → α) (sin : α → α) (cos : α → α) (atan2 : α → α → α) (m : M44 α) : (V3 α) :=
@@ -260,212 +260,212 @@ def Euler.extractEulerZYX {α : Type} [Add α] [Mul α] [Div α] [Neg α] [LT α
   let t73 := (t66 * t68)
   let t91 := ((1 : α) * t70)
   let t95 := ((0 : α) * t70)
-  let t2448 := ((0 : α) * t73)
-  let t2457 := ((1 : α) * t73)
-  let t8767 := (V3.length tmin sqrt ⟨m.x00, m.x01, m.x02⟩)
-  let t8768 := (V3.length tmin sqrt ⟨m.x10, m.x11, m.x12⟩)
-  let t8769 := (V3.length tmin sqrt ⟨m.x20, m.x21, m.x22⟩)
-  let t8770 := (m.x20 / t8769)
-  let t8771 := (m.x21 / t8769)
-  let t8772 := (m.x22 / t8769)
-  let t8895 := (m.x10 / t8768)
-  let t8896 := (m.x11 / t8768)
-  let t8897 := (m.x12 / t8768)
-  let t9142 := (m.x00 / t8767)
-  let t9143 := (m.x01 / t8767)
-  let t9144 := (m.x02 / t8767)
-  let t9339 := (-(atan2 m.x10 m.x00))
-  let t9340 := (-t9339)
-  let t9341 := (cos t9340)
-  let t9342 := (sin t9340)
-  let t9345 := (t9341 * t68)
-  let t9347 := (-t9342)
-  let t9349 := ((t9347 * t66) + (t9345 * t68))
-  let t9350 := (t9342 * t68)
-  let t9352 := ((t9341 * t66) + (t9350 * t68))
-  let t9355 := ((t9347 * t72) + (t9345 * t66))
-  let t9358 := ((t9341 * t72) + (t9350 * t66))
-  let t9370 := ((0 : α) * t9352)
-  let t9373 := ((((1 : α) * t9349) + t9370) + t2448)
-  let t9375 := ((0 : α) * t9349)
-  let t9377 := ((t9375 + ((1 : α) * t9352)) + t2448)
-  let t9378 := (t9375 + t9370)
-  let t9379 := (t9378 + t2457)
-  let t9381 := ((0 : α) * t9358)
-  let t9384 := ((((1 : α) * t9355) + t9381) + t95)
-  let t9386 := ((0 : α) * t9355)
-  let t9388 := ((t9386 + ((1 : α) * t9358)) + t95)
-  let t9389 := (t9386 + t9381)
-  let t9390 := (t9389 + t91)
-  let t9418 := ((t9378 + t2448) * (0 : α))
-  let t9428 := ((t9373 * m.x01) + (t9377 * m.x11))
-  let t9434 := ((t9373 * m.x02) + (t9377 * m.x12))
-  let t9444 := ((t9389 + t95) * (0 : α))
-  let t9448 := ((t9384 * m.x00) + (t9388 * m.x10))
-  let t9454 := ((t9384 * m.x01) + (t9388 * m.x11))
-  let t9456 := ((t9454 + (t9390 * m.x21)) + t9444)
-  let t9460 := ((t9384 * m.x02) + (t9388 * m.x12))
-  let t9462 := ((t9460 + (t9390 * m.x22)) + t9444)
-  let t9503 := ((t9454 + (t9390 * t8771)) + t9444)
-  let t9506 := ((t9460 + (t9390 * t8772)) + t9444)
-  let t9518 := (-(atan2 t8895 m.x00))
-  let t9519 := (-t9518)
-  let t9520 := (cos t9519)
-  let t9521 := (sin t9519)
-  let t9524 := (t9520 * t68)
-  let t9526 := (-t9521)
-  let t9528 := ((t9526 * t66) + (t9524 * t68))
-  let t9529 := (t9521 * t68)
-  let t9531 := ((t9520 * t66) + (t9529 * t68))
-  let t9534 := ((t9526 * t72) + (t9524 * t66))
-  let t9537 := ((t9520 * t72) + (t9529 * t66))
-  let t9549 := ((0 : α) * t9531)
-  let t9552 := ((((1 : α) * t9528) + t9549) + t2448)
-  let t9554 := ((0 : α) * t9528)
-  let t9556 := ((t9554 + ((1 : α) * t9531)) + t2448)
-  let t9557 := (t9554 + t9549)
-  let t9558 := (t9557 + t2457)
-  let t9560 := ((0 : α) * t9537)
-  let t9563 := ((((1 : α) * t9534) + t9560) + t95)
-  let t9565 := ((0 : α) * t9534)
-  let t9567 := ((t9565 + ((1 : α) * t9537)) + t95)
-  let t9568 := (t9565 + t9560)
-  let t9569 := (t9568 + t91)
-  let t9597 := ((t9557 + t2448) * (0 : α))
-  let t9607 := ((t9552 * m.x01) + (t9556 * t8896))
-  let t9613 := ((t9552 * m.x02) + (t9556 * t8897))
-  let t9623 := ((t9568 + t95) * (0 : α))
-  let t9627 := ((t9563 * m.x00) + (t9567 * t8895))
-  let t9633 := ((t9563 * m.x01) + (t9567 * t8896))
-  let t9635 := ((t9633 + (t9569 * m.x21)) + t9623)
-  let t9639 := ((t9563 * m.x02) + (t9567 * t8897))
-  let t9641 := ((t9639 + (t9569 * m.x22)) + t9623)
-  let t9682 := ((t9633 + (t9569 * t8771)) + t9623)
-  let t9685 := ((t9639 + (t9569 * t8772)) + t9623)
-  let t9697 := (-(atan2 m.x10 t9142))
-  let t9698 := (-t9697)
-  let t9699 := (cos t9698)
-  let t9700 := (sin t9698)
-  let t9703 := (t9699 * t68)
-  let t9705 := (-t9700)
-  let t9707 := ((t9705 * t66) + (t9703 * t68))
-  let t9708 := (t9700 * t68)
-  let t9710 := ((t9699 * t66) + (t9708 * t68))
-  let t9713 := ((t9705 * t72) + (t9703 * t66))
-  let t9716 := ((t9699 * t72) + (t9708 * t66))
-  let t9728 := ((0 : α) * t9710)
-  let t9731 := ((((1 : α) * t9707) + t9728) + t2448)
-  let t9733 := ((0 : α) * t9707)
-  let t9735 := ((t9733 + ((1 : α) * t9710)) + t2448)
-  let t9736 := (t9733 + t9728)
-  let t9737 := (t9736 + t2457)
-  let t9739 := ((0 : α) * t9716)
-  let t9742 := ((((1 : α) * t9713) + t9739) + t95)
-  let t9744 := ((0 : α) * t9713)
-  let t9746 := ((t9744 + ((1 : α) * t9716)) + t95)
-  let t9747 := (t9744 + t9739)
-  let t9748 := (t9747 + t91)
-  let t9776 := ((t9736 + t2448) * (0 : α))
-  let t9786 := ((t9731 * t9143) + (t9735 * m.x11))
-  let t9792 := ((t9731 * t9144) + (t9735 * m.x12))
-  let t9802 := ((t9747 + t95) * (0 : α))
-  let t9806 := ((t9742 * t9142) + (t9746 * m.x10))
-  let t9812 := ((t9742 * t9143) + (t9746 * m.x11))
-  let t9814 := ((t9812 + (t9748 * m.x21)) + t9802)
-  let t9818 := ((t9742 * t9144) + (t9746 * m.x12))
-  let t9820 := ((t9818 + (t9748 * m.x22)) + t9802)
-  let t9861 := ((t9812 + (t9748 * t8771)) + t9802)
-  let t9864 := ((t9818 + (t9748 * t8772)) + t9802)
-  let t9876 := (-(atan2 t8895 t9142))
-  let t9877 := (-t9876)
-  let t9878 := (cos t9877)
-  let t9879 := (sin t9877)
-  let t9882 := (t9878 * t68)
-  let t9884 := (-t9879)
-  let t9886 := ((t9884 * t66) + (t9882 * t68))
-  let t9887 := (t9879 * t68)
-  let t9889 := ((t9878 * t66) + (t9887 * t68))
-  let t9892 := ((t9884 * t72) + (t9882 * t66))
-  let t9895 := ((t9878 * t72) + (t9887 * t66))
-  let t9907 := ((0 : α) * t9889)
-  let t9910 := ((((1 : α) * t9886) + t9907) + t2448)
-  let t9912 := ((0 : α) * t9886)
-  let t9914 := ((t9912 + ((1 : α) * t9889)) + t2448)
-  let t9915 := (t9912 + t9907)
-  let t9916 := (t9915 + t2457)
-  let t9918 := ((0 : α) * t9895)
-  let t9921 := ((((1 : α) * t9892) + t9918) + t95)
-  let t9923 := ((0 : α) * t9892)
-  let t9925 := ((t9923 + ((1 : α) * t9895)) + t95)
-  let t9926 := (t9923 + t9918)
-  let t9927 := (t9926 + t91)
-  let t9955 := ((t9915 + t2448) * (0 : α))
-  let t9965 := ((t9910 * t9143) + (t9914 * t8896))
-  let t9971 := ((t9910 * t9144) + (t9914 * t8897))
-  let t9981 := ((t9926 + t95) * (0 : α))
-  let t9985 := ((t9921 * t9142) + (t9925 * t8895))
-  let t9991 := ((t9921 * t9143) + (t9925 * t8896))
-  let t9993 := ((t9991 + (t9927 * m.x21)) + t9981)
-  let t9997 := ((t9921 * t9144) + (t9925 * t8897))
-  let t9999 := ((t9997 + (t9927 * m.x22)) + t9981)
-  let t10040 := ((t9991 + (t9927 * t8771)) + t9981)
-  let t10043 := ((t9997 + (t9927 * t8772)) + t9981)
-  if t8767 = (0 : α) then
-    if t8768 = (0 : α) then
-      if t8769 = (0 : α) then
-        ⟨t9339, (-(atan2 (-((t9448 + (t9390 * m.x20)) + t9444)) (sqrt ((t9462 * t9462) + (t9456 * t9456))))), (-(atan2 (-((t9434 + (t9379 * m.x22)) + t9418)) ((t9428 + (t9379 * m.x21)) + t9418)))⟩
+  let t2422 := ((0 : α) * t73)
+  let t2431 := ((1 : α) * t73)
+  let t8706 := (V3.length tmin sqrt ⟨m.x00, m.x01, m.x02⟩)
+  let t8707 := (V3.length tmin sqrt ⟨m.x10, m.x11, m.x12⟩)
+  let t8708 := (V3.length tmin sqrt ⟨m.x20, m.x21, m.x22⟩)
+  let t8709 := (m.x20 / t8708)
+  let t8710 := (m.x21 / t8708)
+  let t8711 := (m.x22 / t8708)
+  let t8834 := (m.x10 / t8707)
+  let t8835 := (m.x11 / t8707)
+  let t8836 := (m.x12 / t8707)
+  let t9081 := (m.x00 / t8706)
+  let t9082 := (m.x01 / t8706)
+  let t9083 := (m.x02 / t8706)
+  let t9278 := (-(atan2 m.x10 m.x00))
+  let t9279 := (-t9278)
+  let t9280 := (cos t9279)
+  let t9281 := (sin t9279)
+  let t9284 := (t9280 * t68)
+  let t9286 := (-t9281)
+  let t9288 := ((t9286 * t66) + (t9284 * t68))
+  let t9289 := (t9281 * t68)
+  let t9291 := ((t9280 * t66) + (t9289 * t68))
+  let t9294 := ((t9286 * t72) + (t9284 * t66))
+  let t9297 := ((t9280 * t72) + (t9289 * t66))
+  let t9309 := ((0 : α) * t9291)
+  let t9312 := ((((1 : α) * t9288) + t9309) + t2422)
+  let t9314 := ((0 : α) * t9288)
+  let t9316 := ((t9314 + ((1 : α) * t9291)) + t2422)
+  let t9317 := (t9314 + t9309)
+  let t9318 := (t9317 + t2431)
+  let t9320 := ((0 : α) * t9297)
+  let t9323 := ((((1 : α) * t9294) + t9320) + t95)
+  let t9325 := ((0 : α) * t9294)
+  let t9327 := ((t9325 + ((1 : α) * t9297)) + t95)
+  let t9328 := (t9325 + t9320)
+  let t9329 := (t9328 + t91)
+  let t9357 := ((t9317 + t2422) * (0 : α))
+  let t9367 := ((t9312 * m.x01) + (t9316 * m.x11))
+  let t9373 := ((t9312 * m.x02) + (t9316 * m.x12))
+  let t9383 := ((t9328 + t95) * (0 : α))
+  let t9387 := ((t9323 * m.x00) + (t9327 * m.x10))
+  let t9393 := ((t9323 * m.x01) + (t9327 * m.x11))
+  let t9395 := ((t9393 + (t9329 * m.x21)) + t9383)
+  let t9399 := ((t9323 * m.x02) + (t9327 * m.x12))
+  let t9401 := ((t9399 + (t9329 * m.x22)) + t9383)
+  let t9442 := ((t9393 + (t9329 * t8710)) + t9383)
+  let t9445 := ((t9399 + (t9329 * t8711)) + t9383)
+  let t9457 := (-(atan2 t8834 m.x00))
+  let t9458 := (-t9457)
+  let t9459 := (cos t9458)
+  let t9460 := (sin t9458)
+  let t9463 := (t9459 * t68)
+  let t9465 := (-t9460)
+  let t9467 := ((t9465 * t66) + (t9463 * t68))
+  let t9468 := (t9460 * t68)
+  let t9470 := ((t9459 * t66) + (t9468 * t68))
+  let t9473 := ((t9465 * t72) + (t9463 * t66))
+  let t9476 := ((t9459 * t72) + (t9468 * t66))
+  let t9488 := ((0 : α) * t9470)
+  let t9491 := ((((1 : α) * t9467) + t9488) + t2422)
+  let t9493 := ((0 : α) * t9467)
+  let t9495 := ((t9493 + ((1 : α) * t9470)) + t2422)
+  let t9496 := (t9493 + t9488)
+  let t9497 := (t9496 + t2431)
+  let t9499 := ((0 : α) * t9476)
+  let t9502 := ((((1 : α) * t9473) + t9499) + t95)
+  let t9504 := ((0 : α) * t9473)
+  let t9506 := ((t9504 + ((1 : α) * t9476)) + t95)
+  let t9507 := (t9504 + t9499)
+  let t9508 := (t9507 + t91)
+  let t9536 := ((t9496 + t2422) * (0 : α))
+  let t9546 := ((t9491 * m.x01) + (t9495 * t8835))
+  let t9552 := ((t9491 * m.x02) + (t9495 * t8836))
+  let t9562 := ((t9507 + t95) * (0 : α))
+  let t9566 := ((t9502 * m.x00) + (t9506 * t8834))
+  let t9572 := ((t9502 * m.x01) + (t9506 * t8835))
+  let t9574 := ((t9572 + (t9508 * m.x21)) + t9562)
+  let t9578 := ((t9502 * m.x02) + (t9506 * t8836))
+  let t9580 := ((t9578 + (t9508 * m.x22)) + t9562)
+  let t9621 := ((t9572 + (t9508 * t8710)) + t9562)
+  let t9624 := ((t9578 + (t9508 * t8711)) + t9562)
+  let t9636 := (-(atan2 m.x10 t9081))
+  let t9637 := (-t9636)
+  let t9638 := (cos t9637)
+  let t9639 := (sin t9637)
+  let t9642 := (t9638 * t68)
+  let t9644 := (-t9639)
+  let t9646 := ((t9644 * t66) + (t9642 * t68))
+  let t9647 := (t9639 * t68)
+  let t9649 := ((t9638 * t66) + (t9647 * t68))
+  let t9652 := ((t9644 * t72) + (t9642 * t66))
+  let t9655 := ((t9638 * t72) + (t9647 * t66))
+  let t9667 := ((0 : α) * t9649)
+  let t9670 := ((((1 : α) * t9646) + t9667) + t2422)
+  let t9672 := ((0 : α) * t9646)
+  let t9674 := ((t9672 + ((1 : α) * t9649)) + t2422)
+  let t9675 := (t9672 + t9667)
+  let t9676 := (t9675 + t2431)
+  let t9678 := ((0 : α) * t9655)
+  let t9681 := ((((1 : α) * t9652) + t9678) + t95)
+  let t9683 := ((0 : α) * t9652)
+  let t9685 := ((t9683 + ((1 : α) * t9655)) + t95)
+  let t9686 := (t9683 + t9678)
+  let t9687 := (t9686 + t91)
+  let t9715 := ((t9675 + t2422) * (0 : α))
+  let t9725 := ((t9670 * t9082) + (t9674 * m.x11))
+  let t9731 := ((t9670 * t9083) + (t9674 * m.x12))
+  let t9741 := ((t9686 + t95) * (0 : α))
+  let t9745 := ((t9681 * t9081) + (t9685 * m.x10))
+  let t9751 := ((t9681 * t9082) + (t9685 * m.x11))
+  let t9753 := ((t9751 + (t9687 * m.x21)) + t9741)
+  let t9757 := ((t9681 * t9083) + (t9685 * m.x12))
+  let t9759 := ((t9757 + (t9687 * m.x22)) + t9741)
+  let t9800 := ((t9751 + (t9687 * t8710)) + t9741)
+  let t9803 := ((t9757 + (t9687 * t8711)) + t9741)
+  let t9815 := (-(atan2 t8834 t9081))
+  let t9816 := (-t9815)
+  let t9817 := (cos t9816)
+  let t9818 := (sin t9816)
+  let t9821 := (t9817 * t68)
+  let t9823 := (-t9818)
+  let t9825 := ((t9823 * t66) + (t9821 * t68))
+  let t9826 := (t9818 * t68)
+  let t9828 := ((t9817 * t66) + (t9826 * t68))
+  let t9831 := ((t9823 * t72) + (t9821 * t66))
+  let t9834 := ((t9817 * t72) + (t9826 * t66))
+  let t9846 := ((0 : α) * t9828)
+  let t9849 := ((((1 : α) * t9825) + t9846) + t2422)
+  let t9851 := ((0 : α) * t9825)
+  let t9853 := ((t9851 + ((1 : α) * t9828)) + t2422)
+  let t9854 := (t9851 + t9846)
+  let t9855 := (t9854 + t2431)
+  let t9857 := ((0 : α) * t9834)
+  let t9860 := ((((1 : α) * t9831) + t9857) + t95)
+  let t9862 := ((0 : α) * t9831)
+  let t9864 := ((t9862 + ((1 : α) * t9834)) + t95)
+  let t9865 := (t9862 + t9857)
+  let t9866 := (t9865 + t91)
+  let t9894 := ((t9854 + t2422) * (0 : α))
+  let t9904 := ((t9849 * t9082) + (t9853 * t8835))
+  let t9910 := ((t9849 * t9083) + (t9853 * t8836))
+  let t9920 := ((t9865 + t95) * (0 : α))
+  let t9924 := ((t9860 * t9081) + (t9864 * t8834))
+  let t9930 := ((t9860 * t9082) + (t9864 * t8835))
+  let t9932 := ((t9930 + (t9866 * m.x21)) + t9920)
+  let t9936 := ((t9860 * t9083) + (t9864 * t8836))
+  let t9938 := ((t9936 + (t9866 * m.x22)) + t9920)
+  let t9979 := ((t9930 + (t9866 * t8710)) + t9920)
+  let t9982 := ((t9936 + (t9866 * t8711)) + t9920)
+  if t8706 = (0 : α) then
+    if t8707 = (0 : α) then
+      if t8708 = (0 : α) then
+        ⟨t9278, (-(atan2 (-((t9387 + (t9329 * m.x20)) + t9383)) (sqrt ((t9401 * t9401) + (t9395 * t9395))))), (-(atan2 (-((t9373 + (t9318 * m.x22)) + t9357)) ((t9367 + (t9318 * m.x21)) + t9357)))⟩
       else
-        ⟨t9339, (-(atan2 (-((t9448 + (t9390 * t8770)) + t9444)) (sqrt ((t9506 * t9506) + (t9503 * t9503))))), (-(atan2 (-((t9434 + (t9379 * t8772)) + t9418)) ((t9428 + (t9379 * t8771)) + t9418)))⟩
+        ⟨t9278, (-(atan2 (-((t9387 + (t9329 * t8709)) + t9383)) (sqrt ((t9445 * t9445) + (t9442 * t9442))))), (-(atan2 (-((t9373 + (t9318 * t8711)) + t9357)) ((t9367 + (t9318 * t8710)) + t9357)))⟩
     else
-      if t8769 = (0 : α) then
-        ⟨t9518, (-(atan2 (-((t9627 + (t9569 * m.x20)) + t9623)) (sqrt ((t9641 * t9641) + (t9635 * t9635))))), (-(atan2 (-((t9613 + (t9558 * m.x22)) + t9597)) ((t9607 + (t9558 * m.x21)) + t9597)))⟩
+      if t8708 = (0 : α) then
+        ⟨t9457, (-(atan2 (-((t9566 + (t9508 * m.x20)) + t9562)) (sqrt ((t9580 * t9580) + (t9574 * t9574))))), (-(atan2 (-((t9552 + (t9497 * m.x22)) + t9536)) ((t9546 + (t9497 * m.x21)) + t9536)))⟩
       else
-        ⟨t9518, (-(atan2 (-((t9627 + (t9569 * t8770)) + t9623)) (sqrt ((t9685 * t9685) + (t9682 * t9682))))), (-(atan2 (-((t9613 + (t9558 * t8772)) + t9597)) ((t9607 + (t9558 * t8771)) + t9597)))⟩
+        ⟨t9457, (-(atan2 (-((t9566 + (t9508 * t8709)) + t9562)) (sqrt ((t9624 * t9624) + (t9621 * t9621))))), (-(atan2 (-((t9552 + (t9497 * t8711)) + t9536)) ((t9546 + (t9497 * t8710)) + t9536)))⟩
   else
-    if t8768 = (0 : α) then
-      if t8769 = (0 : α) then
-        ⟨t9697, (-(atan2 (-((t9806 + (t9748 * m.x20)) + t9802)) (sqrt ((t9820 * t9820) + (t9814 * t9814))))), (-(atan2 (-((t9792 + (t9737 * m.x22)) + t9776)) ((t9786 + (t9737 * m.x21)) + t9776)))⟩
+    if t8707 = (0 : α) then
+      if t8708 = (0 : α) then
+        ⟨t9636, (-(atan2 (-((t9745 + (t9687 * m.x20)) + t9741)) (sqrt ((t9759 * t9759) + (t9753 * t9753))))), (-(atan2 (-((t9731 + (t9676 * m.x22)) + t9715)) ((t9725 + (t9676 * m.x21)) + t9715)))⟩
       else
-        ⟨t9697, (-(atan2 (-((t9806 + (t9748 * t8770)) + t9802)) (sqrt ((t9864 * t9864) + (t9861 * t9861))))), (-(atan2 (-((t9792 + (t9737 * t8772)) + t9776)) ((t9786 + (t9737 * t8771)) + t9776)))⟩
+        ⟨t9636, (-(atan2 (-((t9745 + (t9687 * t8709)) + t9741)) (sqrt ((t9803 * t9803) + (t9800 * t9800))))), (-(atan2 (-((t9731 + (t9676 * t8711)) + t9715)) ((t9725 + (t9676 * t8710)) + t9715)))⟩
     else
-      if t8769 = (0 : α) then
-        ⟨t9876, (-(atan2 (-((t9985 + (t9927 * m.x20)) + t9981)) (sqrt ((t9999 * t9999) + (t9993 * t9993))))), (-(atan2 (-((t9971 + (t9916 * m.x22)) + t9955)) ((t9965 + (t9916 * m.x21)) + t9955)))⟩
+      if t8708 = (0 : α) then
+        ⟨t9815, (-(atan2 (-((t9924 + (t9866 * m.x20)) + t9920)) (sqrt ((t9938 * t9938) + (t9932 * t9932))))), (-(atan2 (-((t9910 + (t9855 * m.x22)) + t9894)) ((t9904 + (t9855 * m.x21)) + t9894)))⟩
       else
-        ⟨t9876, (-(atan2 (-((t9985 + (t9927 * t8770)) + t9981)) (sqrt ((t10043 * t10043) + (t10040 * t10040))))), (-(atan2 (-((t9971 + (t9916 * t8772)) + t9955)) ((t9965 + (t9916 * t8771)) + t9955)))⟩
+        ⟨t9815, (-(atan2 (-((t9924 + (t9866 * t8709)) + t9920)) (sqrt ((t9982 * t9982) + (t9979 * t9979))))), (-(atan2 (-((t9910 + (t9855 * t8711)) + t9894)) ((t9904 + (t9855 * t8710)) + t9894)))⟩
 
 /-- extracted from the C++ template at T = Sym; 4 path(s) -/
 def Euler.extractEuler22 {α : Type} [Add α] [Mul α] [Div α] [Neg α] [LT α] [DecidableLT α] [DecidableEq α] [OfNat α 0] [OfNat α 2] (tmin : α) (sqrt : α → α) (atan2 : α → α → α) (m : M22 α) : α :=
-  let t10054 := (V2.length tmin sqrt ⟨m.x00, m.x01⟩)
-  let t10055 := (V2.length tmin sqrt ⟨m.x10, m.x11⟩)
-  let t10056 := (m.x10 / t10055)
-  let t10060 := (m.x00 / t10054)
-  if t10054 = (0 : α) then
-    if t10055 = (0 : α) then
+  let t9993 := (V2.length tmin sqrt ⟨m.x00, m.x01⟩)
+  let t9994 := (V2.length tmin sqrt ⟨m.x10, m.x11⟩)
+  let t9995 := (m.x10 / t9994)
+  let t9999 := (m.x00 / t9993)
+  if t9993 = (0 : α) then
+    if t9994 = (0 : α) then
       (-(atan2 m.x10 m.x00))
     else
-      (-(atan2 t10056 m.x00))
+      (-(atan2 t9995 m.x00))
   else
-    if t10055 = (0 : α) then
-      (-(atan2 m.x10 t10060))
+    if t9994 = (0 : α) then
+      (-(atan2 m.x10 t9999))
     else
-      (-(atan2 t10056 t10060))
+      (-(atan2 t9995 t9999))
 
 /-- extracted from the C++ template at T = Sym; 4 path(s) -/
 def Euler.extractEuler33 {α : Type} [Add α] [Mul α] [Div α] [Neg α] [LT α] [DecidableLT α] [DecidableEq α] [OfNat α 0] [OfNat α 2] (tmin : α) (sqrt : α → α) (atan2 : α → α → α) (m : M33 α) : α :=
-  let t10054 := (V2.length tmin sqrt ⟨m.x00, m.x01⟩)
-  let t10055 := (V2.length tmin sqrt ⟨m.x10, m.x11⟩)
-  let t10056 := (m.x10 / t10055)
-  let t10060 := (m.x00 / t10054)
-  if t10054 = (0 : α) then
-    if t10055 = (0 : α) then
+  let t9993 := (V2.length tmin sqrt ⟨m.x00, m.x01⟩)
+  let t9994 := (V2.length tmin sqrt ⟨m.x10, m.x11⟩)
+  let t9995 := (m.x10 / t9994)
+  let t9999 := (m.x00 / t9993)
+  if t9993 = (0 : α) then
+    if t9994 = (0 : α) then
       (-(atan2 m.x10 m.x00))
     else
-      (-(atan2 t10056 m.x00))
+      (-(atan2 t9995 m.x00))
   else
-    if t10055 = (0 : α) then
-      (-(atan2 m.x10 t10060))
+    if t9994 = (0 : α) then
+      (-(atan2 m.x10 t9999))
     else
-      (-(atan2 t10056 t10060))
+      (-(atan2 t9995 t9999))
 
 /-- extracted from the C++ template at T = Sym; 1 path(s) -/
 def Euler.simpleXYZRotation {α : Type} [Add α] [Sub α] (angleMod : α → α) (xyzRot : V3 α) (target : V3 α) : (V3 α) :=
@@ -473,1010 +473,1010 @@ def Euler.simpleXYZRotation {α : Type} [Add α] [Sub α] (angleMod : α → α)
 
 /-- extracted from the C++ template at T = Sym; 2 path(s) -/
 def Euler.nearestRotation_XYZ {α : Type} [Add α] [Sub α] [Mul α] [Div α] [LT α] [DecidableLT α] [OfNat α 281474976710656] [OfNat α 884279719003555] (angleMod : α → α) (xyzRot : V3 α) (target : V3 α) : (V3 α) :=
-  let t10076 := (target.x + (angleMod (xyzRot.x - target.x)))
-  let t10078 := (target.y + (angleMod (xyzRot.y - target.y)))
-  let t10080 := (target.z + (angleMod (xyzRot.z - target.z)))
-  let t10089 := (target.x + (angleMod ((((884279719003555 : α) / (281474976710656 : α)) + t10076) - target.x)))
-  let t10091 := (target.y + (angleMod ((((884279719003555 : α) / (281474976710656 : α)) - t10078) - target.y)))
-  let t10093 := (target.z + (angleMod ((((884279719003555 : α) / (281474976710656 : α)) + t10080) - target.z)))
-  let t10094 := (t10080 - target.z)
-  let t10095 := (t10078 - target.y)
-  let t10096 := (t10076 - target.x)
-  let t10097 := (t10093 - target.z)
-  let t10098 := (t10091 - target.y)
-  let t10099 := (t10089 - target.x)
-  let t10104 := (((t10096 * t10096) + (t10095 * t10095)) + (t10094 * t10094))
-  let t10109 := (((t10099 * t10099) + (t10098 * t10098)) + (t10097 * t10097))
-  if t10109 < t10104 then
-    ⟨t10089, t10091, t10093⟩
+  let t10015 := (target.x + (angleMod (xyzRot.x - target.x)))
+  let t10017 := (target.y + (angleMod (xyzRot.y - target.y)))
+  let t10019 := (target.z + (angleMod (xyzRot.z - target.z)))
+  let t10028 := (target.x + (angleMod ((((884279719003555 : α) / (281474976710656 : α)) + t10015) - target.x)))
+  let t10030 := (target.y + (angleMod ((((884279719003555 : α) / (281474976710656 : α)) - t10017) - target.y)))
+  let t10032 := (target.z + (angleMod ((((884279719003555 : α) / (281474976710656 : α)) + t10019) - target.z)))
+  let t10033 := (t10019 - target.z)
+  let t10034 := (t10017 - target.y)
+  let t10035 := (t10015 - target.x)
+  let t10036 := (t10032 - target.z)
+  let t10037 := (t10030 - target.y)
+  let t10038 := (t10028 - target.x)
+  let t10043 := (((t10035 * t10035) + (t10034 * t10034)) + (t10033 * t10033))
+  let t10048 := (((t10038 * t10038) + (t10037 * t10037)) + (t10036 * t10036))
+  if t10048 < t10043 then
+    ⟨t10028, t10030, t10032⟩
   else
-    ⟨t10076, t10078, t10080⟩
+    ⟨t10015, t10017, t10019⟩
 
 /-- extracted from the C++ template at T = Sym; 2 path(s) -/
 def Euler.makeNear_XYZ {α : Type} [Add α] [Sub α] [Mul α] [Div α] [LT α] [DecidableLT α] [OfNat α 281474976710656] [OfNat α 884279719003555] (angleMod : α → α) (a : V3 α) (t : V3 α) : ((V3 α) × Int) :=
-  let t10117 := (t.x + (angleMod (a.x - t.x)))
-  let t10119 := (t.y + (angleMod (a.y - t.y)))
-  let t10121 := (t.z + (angleMod (a.z - t.z)))
-  let t10129 := (t.x + (angleMod ((((884279719003555 : α) / (281474976710656 : α)) + t10117) - t.x)))
-  let t10131 := (t.y + (angleMod ((((884279719003555 : α) / (281474976710656 : α)) - t10119) - t.y)))
-  let t10133 := (t.z + (angleMod ((((884279719003555 : α) / (281474976710656 : α)) + t10121) - t.z)))
-  let t10134 := (t10121 - t.z)
-  let t10135 := (t10119 - t.y)
-  let t10136 := (t10117 - t.x)
-  let t10137 := (t10133 - t.z)
-  let t10138 := (t10131 - t.y)
-  let t10139 := (t10129 - t.x)
-  let t10144 := (((t10136 * t10136) + (t10135 * t10135)) + (t10134 * t10134))
-  let t10149 := (((t10139 * t10139) + (t10138 * t10138)) + (t10137 * t10137))
-  if t10149 < t10144 then
-    (⟨t10129, t10131, t10133⟩, (257 : Int))
+  let t10056 := (t.x + (angleMod (a.x - t.x)))
+  let t10058 := (t.y + (angleMod (a.y - t.y)))
+  let t10060 := (t.z + (angleMod (a.z - t.z)))
+  let t10068 := (t.x + (angleMod ((((884279719003555 : α) / (281474976710656 : α)) + t10056) - t.x)))
+  let t10070 := (t.y + (angleMod ((((884279719003555 : α) / (281474976710656 : α)) - t10058) - t.y)))
+  let t10072 := (t.z + (angleMod ((((884279719003555 : α) / (281474976710656 : α)) + t10060) - t.z)))
+  let t10073 := (t10060 - t.z)
+  let t10074 := (t10058 - t.y)
+  let t10075 := (t10056 - t.x)
+  let t10076 := (t10072 - t.z)
+  let t10077 := (t10070 - t.y)
+  let t10078 := (t10068 - t.x)
+  let t10083 := (((t10075 * t10075) + (t10074 * t10074)) + (t10073 * t10073))
+  let t10088 := (((t10078 * t10078) + (t10077 * t10077)) + (t10076 * t10076))
+  if t10088 < t10083 then
+    (⟨t10068, t10070, t10072⟩, (257 : Int))
   else
-    (⟨t10117, t10119, t10121⟩, (257 : Int))
+    (⟨t10056, t10058, t10060⟩, (257 : Int))
 
 /-- extracted from the C++ template at T = Sym; 2 path(s) -/
 def Euler.nearestRotation_XZY {α : Type} [Add α] [Sub α] [Mul α] [Div α] [LT α] [DecidableLT α] [OfNat α 281474976710656] [OfNat α 884279719003555] (angleMod : α → α) (xyzRot : V3 α) (target : V3 α) : (V3 α) :=
-  let t10076 := (target.x + (angleMod (xyzRot.x - target.x)))
-  let t10078 := (target.y + (angleMod (xyzRot.y - target.y)))
-  let t10080 := (target.z + (angleMod (xyzRot.z - target.z)))
-  let t10089 := (target.x + (angleMod ((((884279719003555 : α) / (281474976710656 : α)) + t10076) - target.x)))
-  let t10094 := (t10080 - target.z)
-  let t10095 := (t10078 - target.y)
-  let t10096 := (t10076 - target.x)
-  let t10099 := (t10089 - target.x)
-  let t10104 := (((t10096 * t10096) + (t10095 * t10095)) + (t10094 * t10094))
-  let t10155 := (target.y + (angleMod ((((884279719003555 : α) / (281474976710656 : α)) + t10078) - target.y)))
-  let t10157 := (target.z + (angleMod ((((884279719003555 : α) / (281474976710656 : α)) - t10080) - target.z)))
-  let t10158 := (t10157 - target.z)
-  let t10159 := (t10155 - target.y)
-  let t10163 := (((t10099 * t10099) + (t10159 * t10159)) + (t10158 * t10158))
-  if t10163 < t10104 then
-    ⟨t10089, t10155, t10157⟩
+  let t10015 := (target.x + (angleMod (xyzRot.x - target.x)))
+  let t10017 := (target.y + (angleMod (xyzRot.y - target.y)))
+  let t10019 := (target.z + (angleMod (xyzRot.z - target.z)))
+  let t10028 := (target.x + (angleMod ((((884279719003555 : α) / (281474976710656 : α)) + t10015) - target.x)))
+  let t10033 := (t10019 - target.z)
+  let t10034 := (t10017 - target.y)
+  let t10035 := (t10015 - target.x)
+  let t10038 := (t10028 - target.x)
+  let t10043 := (((t10035 * t10035) + (t10034 * t10034)) + (t10033 * t10033))
+  let t10094 := (target.y + (angleMod ((((884279719003555 : α) / (281474976710656 : α)) + t10017) - target.y)))
+  let t10096 := (target.z + (angleMod ((((884279719003555 : α) / (281474976710656 : α)) - t10019) - target.z)))
+  let t10097 := (t10096 - target.z)
+  let t10098 := (t10094 - target.y)
+  let t10102 := (((t10038 * t10038) + (t10098 * t10098)) + (t10097 * t10097))
+  if t10102 < t10043 then
+    ⟨t10028, t10094, t10096⟩
   else
-    ⟨t10076, t10078, t10080⟩
+    ⟨t10015, t10017, t10019⟩
 
 /-- extracted from the C++ template at T = Sym; 2 path(s) -/
 def Euler.makeNear_XZY {α : Type} [Add α] [Sub α] [Mul α] [Div α] [LT α] [DecidableLT α] [OfNat α 281474976710656] [OfNat α 884279719003555] (angleMod : α → α) (a : V3 α) (t : V3 α) : ((V3 α) × Int) :=
-  let t10117 := (t.x + (angleMod (a.x - t.x)))
-  let t10119 := (t.y + (angleMod (a.y - t.y)))
-  let t10121 := (t.z + (angleMod (a.z - t.z)))
-  let t10129 := (t.x + (angleMod ((((884279719003555 : α) / (281474976710656 : α)) + t10117) - t.x)))
-  let t10131 := (t.y + (angleMod ((((884279719003555 : α) / (281474976710656 : α)) - t10119) - t.y)))
-  let t10133 := (t.z + (angleMod ((((884279719003555 : α) / (281474976710656 : α)) + t10121) - t.z)))
-  let t10134 := (t10121 - t.z)
-  let t10135 := (t10119 - t.y)
-  let t10136 := (t10117 - t.x)
-  let t10137 := (t10133 - t.z)
-  let t10138 := (t10131 - t.y)
-  let t10139 := (t10129 - t.x)
-  let t10165 := (((t10136 * t10136) + (t10134 * t10134)) + (t10135 * t10135))
-  let t10167 := (((t10139 * t10139) + (t10137 * t10137)) + (t10138 * t10138))
-  if t10167 < t10165 then
-    (⟨t10129, t10131, t10133⟩, (1 : Int))
+  let t10056 := (t.x + (angleMod (a.x - t.x)))
+  let t10058 := (t.y + (angleMod (a.y - t.y)))
+  let t10060 := (t.z + (angleMod (a.z - t.z)))
+  let t10068 := (t.x + (angleMod ((((884279719003555 : α) / (281474976710656 : α)) + t10056) - t.x)))
+  let t10070 := (t.y + (angleMod ((((884279719003555 : α) / (281474976710656 : α)) - t10058) - t.y)))
+  let t10072 := (t.z + (angleMod ((((884279719003555 : α) / (281474976710656 : α)) + t10060) - t.z)))
+  let t10073 := (t10060 - t.z)
+  let t10074 := (t10058 - t.y)
+  let t10075 := (t10056 - t.x)
+  let t10076 := (t10072 - t.z)
+  let t10077 := (t10070 - t.y)
+  let t10078 := (t10068 - t.x)
+  let t10104 := (((t10075 * t10075) + (t10073 * t10073)) + (t10074 * t10074))
+  let t10106 := (((t10078 * t10078) + (t10076 * t10076)) + (t10077 * t10077))
+  if t10106 < t10104 then
+    (⟨t10068, t10070, t10072⟩, (1 : Int))
   else
-    (⟨t10117, t10119, t10121⟩, (1 : Int))
+    (⟨t10056, t10058, t10060⟩, (1 : Int))
 
 /-- extracted from the C++ template at T = Sym; 2 path(s) -/
 def Euler.nearestRotation_YZX {α : Type} [Add α] [Sub α] [Mul α] [Div α] [LT α] [DecidableLT α] [OfNat α 281474976710656] [OfNat α 884279719003555] (angleMod : α → α) (xyzRot : V3 α) (target : V3 α) : (V3 α) :=
-  let t10076 := (target.x + (angleMod (xyzRot.x - target.x)))
-  let t10078 := (target.y + (angleMod (xyzRot.y - target.y)))
-  let t10080 := (target.z + (angleMod (xyzRot.z - target.z)))
-  let t10089 := (target.x + (angleMod ((((884279719003555 : α) / (281474976710656 : α)) + t10076) - target.x)))
-  let t10094 := (t10080 - target.z)
-  let t10095 := (t10078 - target.y)
-  let t10096 := (t10076 - target.x)
-  let t10099 := (t10089 - target.x)
-  let t10104 := (((t10096 * t10096) + (t10095 * t10095)) + (t10094 * t10094))
-  let t10155 := (target.y + (angleMod ((((884279719003555 : α) / (281474976710656 : α)) + t10078) - target.y)))
-  let t10157 := (target.z + (angleMod ((((884279719003555 : α) / (281474976710656 : α)) - t10080) - target.z)))
-  let t10158 := (t10157 - target.z)
-  let t10159 := (t10155 - target.y)
-  let t10163 := (((t10099 * t10099) + (t10159 * t10159)) + (t10158 * t10158))
-  if t10163 < t10104 then
-    ⟨t10089, t10155, t10157⟩
+  let t10015 := (target.x + (angleMod (xyzRot.x - target.x)))
+  let t10017 := (target.y + (angleMod (xyzRot.y - target.y)))
+  let t10019 := (target.z + (angleMod (xyzRot.z - target.z)))
+  let t10028 := (target.x + (angleMod ((((884279719003555 : α) / (281474976710656 : α)) + t10015) - target.x)))
+  let t10033 := (t10019 - target.z)
+  let t10034 := (t10017 - target.y)
+  let t10035 := (t10015 - target.x)
+  let t10038 := (t10028 - target.x)
+  let t10043 := (((t10035 * t10035) + (t10034 * t10034)) + (t10033 * t10033))
+  let t10094 := (target.y + (angleMod ((((884279719003555 : α) / (281474976710656 : α)) + t10017) - target.y)))
+  let t10096 := (target.z + (angleMod ((((884279719003555 : α) / (281474976710656 : α)) - t10019) - target.z)))
+  let t10097 := (t10096 - target.z)
+  let t10098 := (t10094 - target.y)
+  let t10102 := (((t10038 * t10038) + (t10098 * t10098)) + (t10097 * t10097))
+  if t10102 < t10043 then
+    ⟨t10028, t10094, t10096⟩
   else
-    ⟨t10076, t10078, t10080⟩
+    ⟨t10015, t10017, t10019⟩
 
 /-- extracted from the C++ template at T = Sym; 2 path(s) -/
 def Euler.makeNear_YZX {α : Type} [Add α] [Sub α] [Mul α] [Div α] [LT α] [DecidableLT α] [OfNat α 281474976710656] [OfNat α 884279719003555] (angleMod : α → α) (a : V3 α) (t : V3 α) : ((V3 α) × Int) :=
-  let t10117 := (t.x + (angleMod (a.x - t.x)))
-  let t10119 := (t.y + (angleMod (a.y - t.y)))
-  let t10121 := (t.z + (angleMod (a.z - t.z)))
-  let t10129 := (t.x + (angleMod ((((884279719003555 : α) / (281474976710656 : α)) + t10117) - t.x)))
-  let t10131 := (t.y + (angleMod ((((884279719003555 : α) / (281474976710656 : α)) - t10119) - t.y)))
-  let t10133 := (t.z + (angleMod ((((884279719003555 : α) / (281474976710656 : α)) + t10121) - t.z)))
-  let t10134 := (t10121 - t.z)
-  let t10135 := (t10119 - t.y)
-  let t10136 := (t10117 - t.x)
-  let t10137 := (t10133 - t.z)
-  let t10138 := (t10131 - t.y)
-  let t10139 := (t10129 - t.x)
-  let t10169 := (((t10134 * t10134) + (t10136 * t10136)) + (t10135 * t10135))
-  let t10171 := (((t10137 * t10137) + (t10139 * t10139)) + (t10138 * t10138))
-  if t10171 < t10169 then
-    (⟨t10129, t10131, t10133⟩, (4353 : Int))
+  let t10056 := (t.x + (angleMod (a.x - t.x)))
+  let t10058 := (t.y + (angleMod (a.y - t.y)))
+  let t10060 := (t.z + (angleMod (a.z - t.z)))
+  let t10068 := (t.x + (angleMod ((((884279719003555 : α) / (281474976710656 : α)) + t10056) - t.x)))
+  let t10070 := (t.y + (angleMod ((((884279719003555 : α) / (281474976710656 : α)) - t10058) - t.y)))
+  let t10072 := (t.z + (angleMod ((((884279719003555 : α) / (281474976710656 : α)) + t10060) - t.z)))
+  let t10073 := (t10060 - t.z)
+  let t10074 := (t10058 - t.y)
+  let t10075 := (t10056 - t.x)
+  let t10076 := (t10072 - t.z)
+  let t10077 := (t10070 - t.y)
+  let t10078 := (t10068 - t.x)
+  let t10108 := (((t10073 * t10073) + (t10075 * t10075)) + (t10074 * t10074))
+  let t10110 := (((t10076 * t10076) + (t10078 * t10078)) + (t10077 * t10077))
+  if t10110 < t10108 then
+    (⟨t10068, t10070, t10072⟩, (4353 : Int))
   else
-    (⟨t10117, t10119, t10121⟩, (4353 : Int))
+    (⟨t10056, t10058, t10060⟩, (4353 : Int))
 
 /-- extracted from the C++ template at T = Sym; 2 path(s) -/
 def Euler.nearestRotation_YXZ {α : Type} [Add α] [Sub α] [Mul α] [Div α] [LT α] [DecidableLT α] [OfNat α 281474976710656] [OfNat α 884279719003555] (angleMod : α → α) (xyzRot : V3 α) (target : V3 α) : (V3 α) :=
-  let t10076 := (target.x + (angleMod (xyzRot.x - target.x)))
-  let t10078 := (target.y + (angleMod (xyzRot.y - target.y)))
-  let t10080 := (target.z + (angleMod (xyzRot.z - target.z)))
-  let t10093 := (target.z + (angleMod ((((884279719003555 : α) / (281474976710656 : α)) + t10080) - target.z)))
-  let t10094 := (t10080 - target.z)
-  let t10095 := (t10078 - target.y)
-  let t10096 := (t10076 - target.x)
-  let t10097 := (t10093 - target.z)
-  let t10104 := (((t10096 * t10096) + (t10095 * t10095)) + (t10094 * t10094))
-  let t10155 := (target.y + (angleMod ((((884279719003555 : α) / (281474976710656 : α)) + t10078) - target.y)))
-  let t10159 := (t10155 - target.y)
-  let t10175 := (target.x + (angleMod ((((884279719003555 : α) / (281474976710656 : α)) - t10076) - target.x)))
-  let t10176 := (t10175 - target.x)
-  let t10179 := (((t10176 * t10176) + (t10159 * t10159)) + (t10097 * t10097))
-  if t10179 < t10104 then
-    ⟨t10175, t10155, t10093⟩
+  let t10015 := (target.x + (angleMod (xyzRot.x - target.x)))
+  let t10017 := (target.y + (angleMod (xyzRot.y - target.y)))
+  let t10019 := (target.z + (angleMod (xyzRot.z - target.z)))
+  let t10032 := (target.z + (angleMod ((((884279719003555 : α) / (281474976710656 : α)) + t10019) - target.z)))
+  let t10033 := (t10019 - target.z)
+  let t10034 := (t10017 - target.y)
+  let t10035 := (t10015 - target.x)
+  let t10036 := (t10032 - target.z)
+  let t10043 := (((t10035 * t10035) + (t10034 * t10034)) + (t10033 * t10033))
+  let t10094 := (target.y + (angleMod ((((884279719003555 : α) / (281474976710656 : α)) + t10017) - target.y)))
+  let t10098 := (t10094 - target.y)
+  let t10114 := (target.x + (angleMod ((((884279719003555 : α) / (281474976710656 : α)) - t10015) - target.x)))
+  let t10115 := (t10114 - target.x)
+  let t10118 := (((t10115 * t10115) + (t10098 * t10098)) + (t10036 * t10036))
+  if t10118 < t10043 then
+    ⟨t10114, t10094, t10032⟩
   else
-    ⟨t10076, t10078, t10080⟩
+    ⟨t10015, t10017, t10019⟩
 
 /-- extracted from the C++ template at T = Sym; 2 path(s) -/
 def Euler.makeNear_YXZ {α : Type} [Add α] [Sub α] [Mul α] [Div α] [LT α] [DecidableLT α] [OfNat α 281474976710656] [OfNat α 884279719003555] (angleMod : α → α) (a : V3 α) (t : V3 α) : ((V3 α) × Int) :=
-  let t10117 := (t.x + (angleMod (a.x - t.x)))
-  let t10119 := (t.y + (angleMod (a.y - t.y)))
-  let t10121 := (t.z + (angleMod (a.z - t.z)))
-  let t10129 := (t.x + (angleMod ((((884279719003555 : α) / (281474976710656 : α)) + t10117) - t.x)))
-  let t10131 := (t.y + (angleMod ((((884279719003555 : α) / (281474976710656 : α)) - t10119) - t.y)))
-  let t10133 := (t.z + (angleMod ((((884279719003555 : α) / (281474976710656 : α)) + t10121) - t.z)))
-  let t10134 := (t10121 - t.z)
-  let t10135 := (t10119 - t.y)
-  let t10136 := (t10117 - t.x)
-  let t10137 := (t10133 - t.z)
-  let t10138 := (t10131 - t.y)
-  let t10139 := (t10129 - t.x)
-  let t10181 := (((t10135 * t10135) + (t10136 * t10136)) + (t10134 * t10134))
-  let t10183 := (((t10138 * t10138) + (t10139 * t10139)) + (t10137 * t10137))
-  if t10183 < t10181 then
-    (⟨t10129, t10131, t10133⟩, (4097 : Int))
+  let t10056 := (t.x + (angleMod (a.x - t.x)))
+  let t10058 := (t.y + (angleMod (a.y - t.y)))
+  let t10060 := (t.z + (angleMod (a.z - t.z)))
+  let t10068 := (t.x + (angleMod ((((884279719003555 : α) / (281474976710656 : α)) + t10056) - t.x)))
+  let t10070 := (t.y + (angleMod ((((884279719003555 : α) / (281474976710656 : α)) - t10058) - t.y)))
+  let t10072 := (t.z + (angleMod ((((884279719003555 : α) / (281474976710656 : α)) + t10060) - t.z)))
+  let t10073 := (t10060 - t.z)
+  let t10074 := (t10058 - t.y)
+  let t10075 := (t10056 - t.x)
+  let t10076 := (t10072 - t.z)
+  let t10077 := (t10070 - t.y)
+  let t10078 := (t10068 - t.x)
+  let t10120 := (((t10074 * t10074) + (t10075 * t10075)) + (t10073 * t10073))
+  let t10122 := (((t10077 * t10077) + (t10078 * t10078)) + (t10076 * t10076))
+  if t10122 < t10120 then
+    (⟨t10068, t10070, t10072⟩, (4097 : Int))
   else
-    (⟨t10117, t10119, t10121⟩, (4097 : Int))
+    (⟨t10056, t10058, t10060⟩, (4097 : Int))
 
 /-- extracted from the C++ template at T = Sym; 2 path(s) -/
 def Euler.nearestRotation_ZXY {α : Type} [Add α] [Sub α] [Mul α] [Div α] [LT α] [DecidableLT α] [OfNat α 281474976710656] [OfNat α 884279719003555] (angleMod : α → α) (xyzRot : V3 α) (target : V3 α) : (V3 α) :=
-  let t10076 := (target.x + (angleMod (xyzRot.x - target.x)))
-  let t10078 := (target.y + (angleMod (xyzRot.y - target.y)))
-  let t10080 := (target.z + (angleMod (xyzRot.z - target.z)))
-  let t10093 := (target.z + (angleMod ((((884279719003555 : α) / (281474976710656 : α)) + t10080) - target.z)))
-  let t10094 := (t10080 - target.z)
-  let t10095 := (t10078 - target.y)
-  let t10096 := (t10076 - target.x)
-  let t10097 := (t10093 - target.z)
-  let t10104 := (((t10096 * t10096) + (t10095 * t10095)) + (t10094 * t10094))
-  let t10155 := (target.y + (angleMod ((((884279719003555 : α) / (281474976710656 : α)) + t10078) - target.y)))
-  let t10159 := (t10155 - target.y)
-  let t10175 := (target.x + (angleMod ((((884279719003555 : α) / (281474976710656 : α)) - t10076) - target.x)))
-  let t10176 := (t10175 - target.x)
-  let t10179 := (((t10176 * t10176) + (t10159 * t10159)) + (t10097 * t10097))
-  if t10179 < t10104 then
-    ⟨t10175, t10155, t10093⟩
+  let t10015 := (target.x + (angleMod (xyzRot.x - target.x)))
+  let t10017 := (target.y + (angleMod (xyzRot.y - target.y)))
+  let t10019 := (target.z + (angleMod (xyzRot.z - target.z)))
+  let t10032 := (target.z + (angleMod ((((884279719003555 : α) / (281474976710656 : α)) + t10019) - target.z)))
+  let t10033 := (t10019 - target.z)
+  let t10034 := (t10017 - target.y)
+  let t10035 := (t10015 - target.x)
+  let t10036 := (t10032 - target.z)
+  let t10043 := (((t10035 * t10035) + (t10034 * t10034)) + (t10033 * t10033))
+  let t10094 := (target.y + (angleMod ((((884279719003555 : α) / (281474976710656 : α)) + t10017) - target.y)))
+  let t10098 := (t10094 - target.y)
+  let t10114 := (target.x + (angleMod ((((884279719003555 : α) / (281474976710656 : α)) - t10015) - target.x)))
+  let t10115 := (t10114 - target.x)
+  let t10118 := (((t10115 * t10115) + (t10098 * t10098)) + (t10036 * t10036))
+  if t10118 < t10043 then
+    ⟨t10114, t10094, t10032⟩
   else
-    ⟨t10076, t10078, t10080⟩
+    ⟨t10015, t10017, t10019⟩
 
 /-- extracted from the C++ template at T = Sym; 2 path(s) -/
 def Euler.makeNear_ZXY {α : Type} [Add α] [Sub α] [Mul α] [Div α] [LT α] [DecidableLT α] [OfNat α 281474976710656] [OfNat α 884279719003555] (angleMod : α → α) (a : V3 α) (t : V3 α) : ((V3 α) × Int) :=
-  let t10117 := (t.x + (angleMod (a.x - t.x)))
-  let t10119 := (t.y + (angleMod (a.y - t.y)))
-  let t10121 := (t.z + (angleMod (a.z - t.z)))
-  let t10129 := (t.x + (angleMod ((((884279719003555 : α) / (281474976710656 : α)) + t10117) - t.x)))
-  let t10131 := (t.y + (angleMod ((((884279719003555 : α) / (281474976710656 : α)) - t10119) - t.y)))
-  let t10133 := (t.z + (angleMod ((((884279719003555 : α) / (281474976710656 : α)) + t10121) - t.z)))
-  let t10134 := (t10121 - t.z)
-  let t10135 := (t10119 - t.y)
-  let t10136 := (t10117 - t.x)
-  let t10137 := (t10133 - t.z)
-  let t10138 := (t10131 - t.y)
-  let t10139 := (t10129 - t.x)
-  let t10185 := (((t10135 * t10135) + (t10134 * t10134)) + (t10136 * t10136))
-  let t10187 := (((t10138 * t10138) + (t10137 * t10137)) + (t10139 * t10139))
-  if t10187 < t10185 then
-    (⟨t10129, t10131, t10133⟩, (8449 : Int))
+  let t10056 := (t.x + (angleMod (a.x - t.x)))
+  let t10058 := (t.y + (angleMod (a.y - t.y)))
+  let t10060 := (t.z + (angleMod (a.z - t.z)))
+  let t10068 := (t.x + (angleMod ((((884279719003555 : α) / (281474976710656 : α)) + t10056) - t.x)))
+  let t10070 := (t.y + (angleMod ((((884279719003555 : α) / (281474976710656 : α)) - t10058) - t.y)))
+  let t10072 := (t.z + (angleMod ((((884279719003555 : α) / (281474976710656 : α)) + t10060) - t.z)))
+  let t10073 := (t10060 - t.z)
+  let t10074 := (t10058 - t.y)
+  let t10075 := (t10056 - t.x)
+  let t10076 := (t10072 - t.z)
+  let t10077 := (t10070 - t.y)
+  let t10078 := (t10068 - t.x)
+  let t10124 := (((t10074 * t10074) + (t10073 * t10073)) + (t10075 * t10075))
+  let t10126 := (((t10077 * t10077) + (t10076 * t10076)) + (t10078 * t10078))
+  if t10126 < t10124 then
+    (⟨t10068, t10070, t10072⟩, (8449 : Int))
   else
-    (⟨t10117, t10119, t10121⟩, (8449 : Int))
+    (⟨t10056, t10058, t10060⟩, (8449 : Int))
 
 /-- extracted from the C++ template at T = Sym; 2 path(s) -/
 def Euler.nearestRotation_ZYX {α : Type} [Add α] [Sub α] [Mul α] [Div α] [LT α] [DecidableLT α] [OfNat α 281474976710656] [OfNat α 884279719003555] (angleMod : α → α) (xyzRot : V3 α) (target : V3 α) : (V3 α) :=
-  let t10076 := (target.x + (angleMod (xyzRot.x - target.x)))
-  let t10078 := (target.y + (angleMod (xyzRot.y - target.y)))
-  let t10080 := (target.z + (angleMod (xyzRot.z - target.z)))
-  let t10089 := (target.x + (angleMod ((((884279719003555 : α) / (281474976710656 : α)) + t10076) - target.x)))
-  let t10091 := (target.y + (angleMod ((((884279719003555 : α) / (281474976710656 : α)) - t10078) - target.y)))
-  let t10093 := (target.z + (angleMod ((((884279719003555 : α) / (281474976710656 : α)) + t10080) - target.z)))
-  let t10094 := (t10080 - target.z)
-  let t10095 := (t10078 - target.y)
-  let t10096 := (t10076 - target.x)
-  let t10097 := (t10093 - target.z)
-  let t10098 := (t10091 - target.y)
-  let t10099 := (t10089 - target.x)
-  let t10104 := (((t10096 * t10096) + (t10095 * t10095)) + (t10094 * t10094))
-  let t10109 := (((t10099 * t10099) + (t10098 * t10098)) + (t10097 * t10097))
-  if t10109 < t10104 then
-    ⟨t10089, t10091, t10093⟩
+  let t10015 := (target.x + (angleMod (xyzRot.x - target.x)))
+  let t10017 := (target.y + (angleMod (xyzRot.y - target.y)))
+  let t10019 := (target.z + (angleMod (xyzRot.z - target.z)))
+  let t10028 := (target.x + (angleMod ((((884279719003555 : α) / (281474976710656 : α)) + t10015) - target.x)))
+  let t10030 := (target.y + (angleMod ((((884279719003555 : α) / (281474976710656 : α)) - t10017) - target.y)))
+  let t10032 := (target.z + (angleMod ((((884279719003555 : α) / (281474976710656 : α)) + t10019) - target.z)))
+  let t10033 := (t10019 - target.z)
+  let t10034 := (t10017 - target.y)
+  let t10035 := (t10015 - target.x)
+  let t10036 := (t10032 - target.z)
+  let t10037 := (t10030 - target.y)
+  let t10038 := (t10028 - target.x)
+  let t10043 := (((t10035 * t10035) + (t10034 * t10034)) + (t10033 * t10033))
+  let t10048 := (((t10038 * t10038) + (t10037 * t10037)) + (t10036 * t10036))
+  if t10048 < t10043 then
+    ⟨t10028, t10030, t10032⟩
   else
-    ⟨t10076, t10078, t10080⟩
+    ⟨t10015, t10017, t10019⟩
 
 /-- extracted from the C++ template at T = Sym; 2 path(s) -/
 def Euler.makeNear_ZYX {α : Type} [Add α] [Sub α] [Mul α] [Div α] [LT α] [DecidableLT α] [OfNat α 281474976710656] [OfNat α 884279719003555] (angleMod : α → α) (a : V3 α) (t : V3 α) : ((V3 α) × Int) :=
-  let t10117 := (t.x + (angleMod (a.x - t.x)))
-  let t10119 := (t.y + (angleMod (a.y - t.y)))
-  let t10121 := (t.z + (angleMod (a.z - t.z)))
-  let t10129 := (t.x + (angleMod ((((884279719003555 : α) / (281474976710656 : α)) + t10117) - t.x)))
-  let t10131 := (t.y + (angleMod ((((884279719003555 : α) / (281474976710656 : α)) - t10119) - t.y)))
-  let t10133 := (t.z + (angleMod ((((884279719003555 : α) / (281474976710656 : α)) + t10121) - t.z)))
-  let t10134 := (t10121 - t.z)
-  let t10135 := (t10119 - t.y)
-  let t10136 := (t10117 - t.x)
-  let t10137 := (t10133 - t.z)
-  let t10138 := (t10131 - t.y)
-  let t10139 := (t10129 - t.x)
-  let t10189 := (((t10134 * t10134) + (t10135 * t10135)) + (t10136 * t10136))
-  let t10191 := (((t10137 * t10137) + (t10138 * t10138)) + (t10139 * t10139))
-  if t10191 < t10189 then
-    (⟨t10129, t10131, t10133⟩, (8193 : Int))
+  let t10056 := (t.x + (angleMod (a.x - t.x)))
+  let t10058 := (t.y + (angleMod (a.y - t.y)))
+  let t10060 := (t.z + (angleMod (a.z - t.z)))
+  let t10068 := (t.x + (angleMod ((((884279719003555 : α) / (281474976710656 : α)) + t10056) - t.x)))
+  let t10070 := (t.y + (angleMod ((((884279719003555 : α) / (281474976710656 : α)) - t10058) - t.y)))
+  let t10072 := (t.z + (angleMod ((((884279719003555 : α) / (281474976710656 : α)) + t10060) - t.z)))
+  let t10073 := (t10060 - t.z)
+  let t10074 := (t10058 - t.y)
+  let t10075 := (t10056 - t.x)
+  let t10076 := (t10072 - t.z)
+  let t10077 := (t10070 - t.y)
+  let t10078 := (t10068 - t.x)
+  let t10128 := (((t10073 * t10073) + (t10074 * t10074)) + (t10075 * t10075))
+  let t10130 := (((t10076 * t10076) + (t10077 * t10077)) + (t10078 * t10078))
+  if t10130 < t10128 then
+    (⟨t10068, t10070, t10072⟩, (8193 : Int))
   else
-    (⟨t10117, t10119, t10121⟩, (8193 : Int))
+    (⟨t10056, t10058, t10060⟩, (8193 : Int))
 
 /-- extracted from the C++ template at T = Sym; 2 path(s) -/
 def Euler.nearestRotation_XZX {α : Type} [Add α] [Sub α] [Mul α] [Div α] [LT α] [DecidableLT α] [OfNat α 281474976710656] [OfNat α 884279719003555] (angleMod : α → α) (xyzRot : V3 α) (target : V3 α) : (V3 α) :=
-  let t10076 := (target.x + (angleMod (xyzRot.x - target.x)))
-  let t10078 := (target.y + (angleMod (xyzRot.y - target.y)))
-  let t10080 := (target.z + (angleMod (xyzRot.z - target.z)))
-  let t10089 := (target.x + (angleMod ((((884279719003555 : α) / (281474976710656 : α)) + t10076) - target.x)))
-  let t10094 := (t10080 - target.z)
-  let t10095 := (t10078 - target.y)
-  let t10096 := (t10076 - target.x)
-  let t10099 := (t10089 - target.x)
-  let t10104 := (((t10096 * t10096) + (t10095 * t10095)) + (t10094 * t10094))
-  let t10155 := (target.y + (angleMod ((((884279719003555 : α) / (281474976710656 : α)) + t10078) - target.y)))
-  let t10157 := (target.z + (angleMod ((((884279719003555 : α) / (281474976710656 : α)) - t10080) - target.z)))
-  let t10158 := (t10157 - target.z)
-  let t10159 := (t10155 - target.y)
-  let t10163 := (((t10099 * t10099) + (t10159 * t10159)) + (t10158 * t10158))
-  if t10163 < t10104 then
-    ⟨t10089, t10155, t10157⟩
+  let t10015 := (target.x + (angleMod (xyzRot.x - target.x)))
+  let t10017 := (target.y + (angleMod (xyzRot.y - target.y)))
+  let t10019 := (target.z + (angleMod (xyzRot.z - target.z)))
+  let t10028 := (target.x + (angleMod ((((884279719003555 : α) / (281474976710656 : α)) + t10015) - target.x)))
+  let t10033 := (t10019 - target.z)
+  let t10034 := (t10017 - target.y)
+  let t10035 := (t10015 - target.x)
+  let t10038 := (t10028 - target.x)
+  let t10043 := (((t10035 * t10035) + (t10034 * t10034)) + (t10033 * t10033))
+  let t10094 := (target.y + (angleMod ((((884279719003555 : α) / (281474976710656 : α)) + t10017) - target.y)))
+  let t10096 := (target.z + (angleMod ((((884279719003555 : α) / (281474976710656 : α)) - t10019) - target.z)))
+  let t10097 := (t10096 - target.z)
+  let t10098 := (t10094 - target.y)
+  let t10102 := (((t10038 * t10038) + (t10098 * t10098)) + (t10097 * t10097))
+  if t10102 < t10043 then
+    ⟨t10028, t10094, t10096⟩
   else
-    ⟨t10076, t10078, t10080⟩
+    ⟨t10015, t10017, t10019⟩
 
 /-- extracted from the C++ template at T = Sym; 2 path(s) -/
 def Euler.makeNear_XZX {α : Type} [Add α] [Sub α] [Mul α] [Div α] [LT α] [DecidableLT α] [OfNat α 281474976710656] [OfNat α 884279719003555] (angleMod : α → α) (a : V3 α) (t : V3 α) : ((V3 α) × Int) :=
-  let t10117 := (t.x + (angleMod (a.x - t.x)))
-  let t10119 := (t.y + (angleMod (a.y - t.y)))
-  let t10121 := (t.z + (angleMod (a.z - t.z)))
-  let t10129 := (t.x + (angleMod ((((884279719003555 : α) / (281474976710656 : α)) + t10117) - t.x)))
-  let t10131 := (t.y + (angleMod ((((884279719003555 : α) / (281474976710656 : α)) - t10119) - t.y)))
-  let t10133 := (t.z + (angleMod ((((884279719003555 : α) / (281474976710656 : α)) + t10121) - t.z)))
-  let t10134 := (t10121 - t.z)
-  let t10135 := (t10119 - t.y)
-  let t10136 := (t10117 - t.x)
-  let t10137 := (t10133 - t.z)
-  let t10138 := (t10131 - t.y)
-  let t10139 := (t10129 - t.x)
-  let t10165 := (((t10136 * t10136) + (t10134 * t10134)) + (t10135 * t10135))
-  let t10167 := (((t10139 * t10139) + (t10137 * t10137)) + (t10138 * t10138))
-  if t10167 < t10165 then
-    (⟨t10129, t10131, t10133⟩, (17 : Int))
+  let t10056 := (t.x + (angleMod (a.x - t.x)))
+  let t10058 := (t.y + (angleMod (a.y - t.y)))
+  let t10060 := (t.z + (angleMod (a.z - t.z)))
+  let t10068 := (t.x + (angleMod ((((884279719003555 : α) / (281474976710656 : α)) + t10056) - t.x)))
+  let t10070 := (t.y + (angleMod ((((884279719003555 : α) / (281474976710656 : α)) - t10058) - t.y)))
+  let t10072 := (t.z + (angleMod ((((884279719003555 : α) / (281474976710656 : α)) + t10060) - t.z)))
+  let t10073 := (t10060 - t.z)
+  let t10074 := (t10058 - t.y)
+  let t10075 := (t10056 - t.x)
+  let t10076 := (t10072 - t.z)
+  let t10077 := (t10070 - t.y)
+  let t10078 := (t10068 - t.x)
+  let t10104 := (((t10075 * t10075) + (t10073 * t10073)) + (t10074 * t10074))
+  let t10106 := (((t10078 * t10078) + (t10076 * t10076)) + (t10077 * t10077))
+  if t10106 < t10104 then
+    (⟨t10068, t10070, t10072⟩, (17 : Int))
   else
-    (⟨t10117, t10119, t10121⟩, (17 : Int))
+    (⟨t10056, t10058, t10060⟩, (17 : Int))
 
 /-- extracted from the C++ template at T = Sym; 2 path(s) -/
 def Euler.nearestRotation_XYX {α : Type} [Add α] [Sub α] [Mul α] [Div α] [LT α] [DecidableLT α] [OfNat α 281474976710656] [OfNat α 884279719003555] (angleMod : α → α) (xyzRot : V3 α) (target : V3 α) : (V3 α) :=
-  let t10076 := (target.x + (angleMod (xyzRot.x - target.x)))
-  let t10078 := (target.y + (angleMod (xyzRot.y - target.y)))
-  let t10080 := (target.z + (angleMod (xyzRot.z - target.z)))
-  let t10089 := (target.x + (angleMod ((((884279719003555 : α) / (281474976710656 : α)) + t10076) - target.x)))
-  let t10091 := (target.y + (angleMod ((((884279719003555 : α) / (281474976710656 : α)) - t10078) - target.y)))
-  let t10093 := (target.z + (angleMod ((((884279719003555 : α) / (281474976710656 : α)) + t10080) - target.z)))
-  let t10094 := (t10080 - target.z)
-  let t10095 := (t10078 - target.y)
-  let t10096 := (t10076 - target.x)
-  let t10097 := (t10093 - target.z)
-  let t10098 := (t10091 - target.y)
-  let t10099 := (t10089 - target.x)
-  let t10104 := (((t10096 * t10096) + (t10095 * t10095)) + (t10094 * t10094))
-  let t10109 := (((t10099 * t10099) + (t10098 * t10098)) + (t10097 * t10097))
-  if t10109 < t10104 then
-    ⟨t10089, t10091, t10093⟩
+  let t10015 := (target.x + (angleMod (xyzRot.x - target.x)))
+  let t10017 := (target.y + (angleMod (xyzRot.y - target.y)))
+  let t10019 := (target.z + (angleMod (xyzRot.z - target.z)))
+  let t10028 := (target.x + (angleMod ((((884279719003555 : α) / (281474976710656 : α)) + t10015) - target.x)))
+  let t10030 := (target.y + (angleMod ((((884279719003555 : α) / (281474976710656 : α)) - t10017) - target.y)))
+  let t10032 := (target.z + (angleMod ((((884279719003555 : α) / (281474976710656 : α)) + t10019) - target.z)))
+  let t10033 := (t10019 - target.z)
+  let t10034 := (t10017 - target.y)
+  let t10035 := (t10015 - target.x)
+  let t10036 := (t10032 - target.z)
+  let t10037 := (t10030 - target.y)
+  let t10038 := (t10028 - target.x)
+  let t10043 := (((t10035 * t10035) + (t10034 * t10034)) + (t10033 * t10033))
+  let t10048 := (((t10038 * t10038) + (t10037 * t10037)) + (t10036 * t10036))
+  if t10048 < t10043 then
+    ⟨t10028, t10030, t10032⟩
   else
-    ⟨t10076, t10078, t10080⟩
+    ⟨t10015, t10017, t10019⟩
 
 /-- extracted from the C++ template at T = Sym; 2 path(s) -/
 def Euler.makeNear_XYX {α : Type} [Add α] [Sub α] [Mul α] [Div α] [LT α] [DecidableLT α] [OfNat α 281474976710656] [OfNat α 884279719003555] (angleMod : α → α) (a : V3 α) (t : V3 α) : ((V3 α) × Int) :=
-  let t10117 := (t.x + (angleMod (a.x - t.x)))
-  let t10119 := (t.y + (angleMod (a.y - t.y)))
-  let t10121 := (t.z + (angleMod (a.z - t.z)))
-  let t10129 := (t.x + (angleMod ((((884279719003555 : α) / (281474976710656 : α)) + t10117) - t.x)))
-  let t10131 := (t.y + (angleMod ((((884279719003555 : α) / (281474976710656 : α)) - t10119) - t.y)))
-  let t10133 := (t.z + (angleMod ((((884279719003555 : α) / (281474976710656 : α)) + t10121) - t.z)))
-  let t10134 := (t10121 - t.z)
-  let t10135 := (t10119 - t.y)
-  let t10136 := (t10117 - t.x)
-  let t10137 := (t10133 - t.z)
-  let t10138 := (t10131 - t.y)
-  let t10139 := (t10129 - t.x)
-  let t10144 := (((t10136 * t10136) + (t10135 * t10135)) + (t10134 * t10134))
-  let t10149 := (((t10139 * t10139) + (t10138 * t10138)) + (t10137 * t10137))
-  if t10149 < t10144 then
-    (⟨t10129, t10131, t10133⟩, (273 : Int))
+  let t10056 := (t.x + (angleMod (a.x - t.x)))
+  let t10058 := (t.y + (angleMod (a.y - t.y)))
+  let t10060 := (t.z + (angleMod (a.z - t.z)))
+  let t10068 := (t.x + (angleMod ((((884279719003555 : α) / (281474976710656 : α)) + t10056) - t.x)))
+  let t10070 := (t.y + (angleMod ((((884279719003555 : α) / (281474976710656 : α)) - t10058) - t.y)))
+  let t10072 := (t.z + (angleMod ((((884279719003555 : α) / (281474976710656 : α)) + t10060) - t.z)))
+  let t10073 := (t10060 - t.z)
+  let t10074 := (t10058 - t.y)
+  let t10075 := (t10056 - t.x)
+  let t10076 := (t10072 - t.z)
+  let t10077 := (t10070 - t.y)
+  let t10078 := (t10068 - t.x)
+  let t10083 := (((t10075 * t10075) + (t10074 * t10074)) + (t10073 * t10073))
+  let t10088 := (((t10078 * t10078) + (t10077 * t10077)) + (t10076 * t10076))
+  if t10088 < t10083 then
+    (⟨t10068, t10070, t10072⟩, (273 : Int))
   else
-    (⟨t10117, t10119, t10121⟩, (273 : Int))
+    (⟨t10056, t10058, t10060⟩, (273 : Int))
 
 /-- extracted from the C++ template at T = Sym; 2 path(s) -/
 def Euler.nearestRotation_YXY {α : Type} [Add α] [Sub α] [Mul α] [Div α] [LT α] [DecidableLT α] [OfNat α 281474976710656] [OfNat α 884279719003555] (angleMod : α → α) (xyzRot : V3 α) (target : V3 α) : (V3 α) :=
-  let t10076 := (target.x + (angleMod (xyzRot.x - target.x)))
-  let t10078 := (target.y + (angleMod (xyzRot.y - target.y)))
-  let t10080 := (target.z + (angleMod (xyzRot.z - target.z)))
-  let t10093 := (target.z + (angleMod ((((884279719003555 : α) / (281474976710656 : α)) + t10080) - target.z)))
-  let t10094 := (t10080 - target.z)
-  let t10095 := (t10078 - target.y)
-  let t10096 := (t10076 - target.x)
-  let t10097 := (t10093 - target.z)
-  let t10104 := (((t10096 * t10096) + (t10095 * t10095)) + (t10094 * t10094))
-  let t10155 := (target.y + (angleMod ((((884279719003555 : α) / (281474976710656 : α)) + t10078) - target.y)))
-  let t10159 := (t10155 - target.y)
-  let t10175 := (target.x + (angleMod ((((884279719003555 : α) / (281474976710656 : α)) - t10076) - target.x)))
-  let t10176 := (t10175 - target.x)
-  let t10179 := (((t10176 * t10176) + (t10159 * t10159)) + (t10097 * t10097))
-  if t10179 < t10104 then
-    ⟨t10175, t10155, t10093⟩
+  let t10015 := (target.x + (angleMod (xyzRot.x - target.x)))
+  let t10017 := (target.y + (angleMod (xyzRot.y - target.y)))
+  let t10019 := (target.z + (angleMod (xyzRot.z - target.z)))
+  let t10032 := (target.z + (angleMod ((((884279719003555 : α) / (281474976710656 : α)) + t10019) - target.z)))
+  let t10033 := (t10019 - target.z)
+  let t10034 := (t10017 - target.y)
+  let t10035 := (t10015 - target.x)
+  let t10036 := (t10032 - target.z)
+  let t10043 := (((t10035 * t10035) + (t10034 * t10034)) + (t10033 * t10033))
+  let t10094 := (target.y + (angleMod ((((884279719003555 : α) / (281474976710656 : α)) + t10017) - target.y)))
+  let t10098 := (t10094 - target.y)
+  let t10114 := (target.x + (angleMod ((((884279719003555 : α) / (281474976710656 : α)) - t10015) - target.x)))
+  let t10115 := (t10114 - target.x)
+  let t10118 := (((t10115 * t10115) + (t10098 * t10098)) + (t10036 * t10036))
+  if t10118 < t10043 then
+    ⟨t10114, t10094, t10032⟩
   else
-    ⟨t10076, t10078, t10080⟩
+    ⟨t10015, t10017, t10019⟩
 
 /-- extracted from the C++ template at T = Sym; 2 path(s) -/
 def Euler.makeNear_YXY {α : Type} [Add α] [Sub α] [Mul α] [Div α] [LT α] [DecidableLT α] [OfNat α 281474976710656] [OfNat α 884279719003555] (angleMod : α → α) (a : V3 α) (t : V3 α) : ((V3 α) × Int) :=
-  let t10117 := (t.x + (angleMod (a.x - t.x)))
-  let t10119 := (t.y + (angleMod (a.y - t.y)))
-  let t10121 := (t.z + (angleMod (a.z - t.z)))
-  let t10129 := (t.x + (angleMod ((((884279719003555 : α) / (281474976710656 : α)) + t10117) - t.x)))
-  let t10131 := (t.y + (angleMod ((((884279719003555 : α) / (281474976710656 : α)) - t10119) - t.y)))
-  let t10133 := (t.z + (angleMod ((((884279719003555 : α) / (281474976710656 : α)) + t10121) - t.z)))
-  let t10134 := (t10121 - t.z)
-  let t10135 := (t10119 - t.y)
-  let t10136 := (t10117 - t.x)
-  let t10137 := (t10133 - t.z)
-  let t10138 := (t10131 - t.y)
-  let t10139 := (t10129 - t.x)
-  let t10181 := (((t10135 * t10135) + (t10136 * t10136)) + (t10134 * t10134))
-  let t10183 := (((t10138 * t10138) + (t10139 * t10139)) + (t10137 * t10137))
-  if t10183 < t10181 then
-    (⟨t10129, t10131, t10133⟩, (4113 : Int))
+  let t10056 := (t.x + (angleMod (a.x - t.x)))
+  let t10058 := (t.y + (angleMod (a.y - t.y)))
+  let t10060 := (t.z + (angleMod (a.z - t.z)))
+  let t10068 := (t.x + (angleMod ((((884279719003555 : α) / (281474976710656 : α)) + t10056) - t.x)))
+  let t10070 := (t.y + (angleMod ((((884279719003555 : α) / (281474976710656 : α)) - t10058) - t.y)))
+  let t10072 := (t.z + (angleMod ((((884279719003555 : α) / (281474976710656 : α)) + t10060) - t.z)))
+  let t10073 := (t10060 - t.z)
+  let t10074 := (t10058 - t.y)
+  let t10075 := (t10056 - t.x)
+  let t10076 := (t10072 - t.z)
+  let t10077 := (t10070 - t.y)
+  let t10078 := (t10068 - t.x)
+  let t10120 := (((t10074 * t10074) + (t10075 * t10075)) + (t10073 * t10073))
+  let t10122 := (((t10077 * t10077) + (t10078 * t10078)) + (t10076 * t10076))
+  if t10122 < t10120 then
+    (⟨t10068, t10070, t10072⟩, (4113 : Int))
   else
-    (⟨t10117, t10119, t10121⟩, (4113 : Int))
+    (⟨t10056, t10058, t10060⟩, (4113 : Int))
 
 /-- extracted from the C++ template at T = Sym; 2 path(s) -/
 def Euler.nearestRotation_YZY {α : Type} [Add α] [Sub α] [Mul α] [Div α] [LT α] [DecidableLT α] [OfNat α 281474976710656] [OfNat α 884279719003555] (angleMod : α → α) (xyzRot : V3 α) (target : V3 α) : (V3 α) :=
-  let t10076 := (target.x + (angleMod (xyzRot.x - target.x)))
-  let t10078 := (target.y + (angleMod (xyzRot.y - target.y)))
-  let t10080 := (target.z + (angleMod (xyzRot.z - target.z)))
-  let t10089 := (target.x + (angleMod ((((884279719003555 : α) / (281474976710656 : α)) + t10076) - target.x)))
-  let t10094 := (t10080 - target.z)
-  let t10095 := (t10078 - target.y)
-  let t10096 := (t10076 - target.x)
-  let t10099 := (t10089 - target.x)
-  let t10104 := (((t10096 * t10096) + (t10095 * t10095)) + (t10094 * t10094))
-  let t10155 := (target.y + (angleMod ((((884279719003555 : α) / (281474976710656 : α)) + t10078) - target.y)))
-  let t10157 := (target.z + (angleMod ((((884279719003555 : α) / (281474976710656 : α)) - t10080) - target.z)))
-  let t10158 := (t10157 - target.z)
-  let t10159 := (t10155 - target.y)
-  let t10163 := (((t10099 * t10099) + (t10159 * t10159)) + (t10158 * t10158))
-  if t10163 < t10104 then
-    ⟨t10089, t10155, t10157⟩
+  let t10015 := (target.x + (angleMod (xyzRot.x - target.x)))
+  let t10017 := (target.y + (angleMod (xyzRot.y - target.y)))
+  let t10019 := (target.z + (angleMod (xyzRot.z - target.z)))
+  let t10028 := (target.x + (angleMod ((((884279719003555 : α) / (281474976710656 : α)) + t10015) - target.x)))
+  let t10033 := (t10019 - target.z)
+  let t10034 := (t10017 - target.y)
+  let t10035 := (t10015 - target.x)
+  let t10038 := (t10028 - target.x)
+  let t10043 := (((t10035 * t10035) + (t10034 * t10034)) + (t10033 * t10033))
+  let t10094 := (target.y + (angleMod ((((884279719003555 : α) / (281474976710656 : α)) + t10017) - target.y)))
+  let t10096 := (target.z + (angleMod ((((884279719003555 : α) / (281474976710656 : α)) - t10019) - target.z)))
+  let t10097 := (t10096 - target.z)
+  let t10098 := (t10094 - target.y)
+  let t10102 := (((t10038 * t10038) + (t10098 * t10098)) + (t10097 * t10097))
+  if t10102 < t10043 then
+    ⟨t10028, t10094, t10096⟩
   else
-    ⟨t10076, t10078, t10080⟩
+    ⟨t10015, t10017, t10019⟩
 
 /-- extracted from the C++ template at T = Sym; 2 path(s) -/
 def Euler.makeNear_YZY {α : Type} [Add α] [Sub α] [Mul α] [Div α] [LT α] [DecidableLT α] [OfNat α 281474976710656] [OfNat α 884279719003555] (angleMod : α → α) (a : V3 α) (t : V3 α) : ((V3 α) × Int) :=
-  let t10117 := (t.x + (angleMod (a.x - t.x)))
-  let t10119 := (t.y + (angleMod (a.y - t.y)))
-  let t10121 := (t.z + (angleMod (a.z - t.z)))
-  let t10129 := (t.x + (angleMod ((((884279719003555 : α) / (281474976710656 : α)) + t10117) - t.x)))
-  let t10131 := (t.y + (angleMod ((((884279719003555 : α) / (281474976710656 : α)) - t10119) - t.y)))
-  let t10133 := (t.z + (angleMod ((((884279719003555 : α) / (281474976710656 : α)) + t10121) - t.z)))
-  let t10134 := (t10121 - t.z)
-  let t10135 := (t10119 - t.y)
-  let t10136 := (t10117 - t.x)
-  let t10137 := (t10133 - t.z)
-  let t10138 := (t10131 - t.y)
-  let t10139 := (t10129 - t.x)
-  let t10169 := (((t10134 * t10134) + (t10136 * t10136)) + (t10135 * t10135))
-  let t10171 := (((t10137 * t10137) + (t10139 * t10139)) + (t10138 * t10138))
-  if t10171 < t10169 then
-    (⟨t10129, t10131, t10133⟩, (4369 : Int))
+  let t10056 := (t.x + (angleMod (a.x - t.x)))
+  let t10058 := (t.y + (angleMod (a.y - t.y)))
+  let t10060 := (t.z + (angleMod (a.z - t.z)))
+  let t10068 := (t.x + (angleMod ((((884279719003555 : α) / (281474976710656 : α)) + t10056) - t.x)))
+  let t10070 := (t.y + (angleMod ((((884279719003555 : α) / (281474976710656 : α)) - t10058) - t.y)))
+  let t10072 := (t.z + (angleMod ((((884279719003555 : α) / (281474976710656 : α)) + t10060) - t.z)))
+  let t10073 := (t10060 - t.z)
+  let t10074 := (t10058 - t.y)
+  let t10075 := (t10056 - t.x)
+  let t10076 := (t10072 - t.z)
+  let t10077 := (t10070 - t.y)
+  let t10078 := (t10068 - t.x)
+  let t10108 := (((t10073 * t10073) + (t10075 * t10075)) + (t10074 * t10074))
+  let t10110 := (((t10076 * t10076) + (t10078 * t10078)) + (t10077 * t10077))
+  if t10110 < t10108 then
+    (⟨t10068, t10070, t10072⟩, (4369 : Int))
   else
-    (⟨t10117, t10119, t10121⟩, (4369 : Int))
+    (⟨t10056, t10058, t10060⟩, (4369 : Int))
 
 /-- extracted from the C++ template at T = Sym; 2 path(s) -/
 def Euler.nearestRotation_ZYZ {α : Type} [Add α] [Sub α] [Mul α] [Div α] [LT α] [DecidableLT α] [OfNat α 281474976710656] [OfNat α 884279719003555] (angleMod : α → α) (xyzRot : V3 α) (target : V3 α) : (V3 α) :=
-  let t10076 := (target.x + (angleMod (xyzRot.x - target.x)))
-  let t10078 := (target.y + (angleMod (xyzRot.y - target.y)))
-  let t10080 := (target.z + (angleMod (xyzRot.z - target.z)))
-  let t10089 := (target.x + (angleMod ((((884279719003555 : α) / (281474976710656 : α)) + t10076) - target.x)))
-  let t10091 := (target.y + (angleMod ((((884279719003555 : α) / (281474976710656 : α)) - t10078) - target.y)))
-  let t10093 := (target.z + (angleMod ((((884279719003555 : α) / (281474976710656 : α)) + t10080) - target.z)))
-  let t10094 := (t10080 - target.z)
-  let t10095 := (t10078 - target.y)
-  let t10096 := (t10076 - target.x)
-  let t10097 := (t10093 - target.z)
-  let t10098 := (t10091 - target.y)
-  let t10099 := (t10089 - target.x)
-  let t10104 := (((t10096 * t10096) + (t10095 * t10095)) + (t10094 * t10094))
-  let t10109 := (((t10099 * t10099) + (t10098 * t10098)) + (t10097 * t10097))
-  if t10109 < t10104 then
-    ⟨t10089, t10091, t10093⟩
+  let t10015 := (target.x + (angleMod (xyzRot.x - target.x)))
+  let t10017 := (target.y + (angleMod (xyzRot.y - target.y)))
+  let t10019 := (target.z + (angleMod (xyzRot.z - target.z)))
+  let t10028 := (target.x + (angleMod ((((884279719003555 : α) / (281474976710656 : α)) + t10015) - target.x)))
+  let t10030 := (target.y + (angleMod ((((884279719003555 : α) / (281474976710656 : α)) - t10017) - target.y)))
+  let t10032 := (target.z + (angleMod ((((884279719003555 : α) / (281474976710656 : α)) + t10019) - target.z)))
+  let t10033 := (t10019 - target.z)
+  let t10034 := (t10017 - target.y)
+  let t10035 := (t10015 - target.x)
+  let t10036 := (t10032 - target.z)
+  let t10037 := (t10030 - target.y)
+  let t10038 := (t10028 - target.x)
+  let t10043 := (((t10035 * t10035) + (t10034 * t10034)) + (t10033 * t10033))
+  let t10048 := (((t10038 * t10038) + (t10037 * t10037)) + (t10036 * t10036))
+  if t10048 < t10043 then
+    ⟨t10028, t10030, t10032⟩
   else
-    ⟨t10076, t10078, t10080⟩
+    ⟨t10015, t10017, t10019⟩
 
 /-- extracted from the C++ template at T = Sym; 2 path(s) -/
 def Euler.makeNear_ZYZ {α : Type} [Add α] [Sub α] [Mul α] [Div α] [LT α] [DecidableLT α] [OfNat α 281474976710656] [OfNat α 884279719003555] (angleMod : α → α) (a : V3 α) (t : V3 α) : ((V3 α) × Int) :=
-  let t10117 := (t.x + (angleMod (a.x - t.x)))
-  let t10119 := (t.y + (angleMod (a.y - t.y)))
-  let t10121 := (t.z + (angleMod (a.z - t.z)))
-  let t10129 := (t.x + (angleMod ((((884279719003555 : α) / (281474976710656 : α)) + t10117) - t.x)))
-  let t10131 := (t.y + (angleMod ((((884279719003555 : α) / (281474976710656 : α)) - t10119) - t.y)))
-  let t10133 := (t.z + (angleMod ((((884279719003555 : α) / (281474976710656 : α)) + t10121) - t.z)))
-  let t10134 := (t10121 - t.z)
-  let t10135 := (t10119 - t.y)
-  let t10136 := (t10117 - t.x)
-  let t10137 := (t10133 - t.z)
-  let t10138 := (t10131 - t.y)
-  let t10139 := (t10129 - t.x)
-  let t10189 := (((t10134 * t10134) + (t10135 * t10135)) + (t10136 * t10136))
-  let t10191 := (((t10137 * t10137) + (t10138 * t10138)) + (t10139 * t10139))
-  if t10191 < t10189 then
-    (⟨t10129, t10131, t10133⟩, (8209 : Int))
+  let t10056 := (t.x + (angleMod (a.x - t.x)))
+  let t10058 := (t.y + (angleMod (a.y - t.y)))
+  let t10060 := (t.z + (angleMod (a.z - t.z)))
+  let t10068 := (t.x + (angleMod ((((884279719003555 : α) / (281474976710656 : α)) + t10056) - t.x)))
+  let t10070 := (t.y + (angleMod ((((884279719003555 : α) / (281474976710656 : α)) - t10058) - t.y)))
+  let t10072 := (t.z + (angleMod ((((884279719003555 : α) / (281474976710656 : α)) + t10060) - t.z)))
+  let t10073 := (t10060 - t.z)
+  let t10074 := (t10058 - t.y)
+  let t10075 := (t10056 - t.x)
+  let t10076 := (t10072 - t.z)
+  let t10077 := (t10070 - t.y)
+  let t10078 := (t10068 - t.x)
+  let t10128 := (((t10073 * t10073) + (t10074 * t10074)) + (t10075 * t10075))
+  let t10130 := (((t10076 * t10076) + (t10077 * t10077)) + (t10078 * t10078))
+  if t10130 < t10128 then
+    (⟨t10068, t10070, t10072⟩, (8209 : Int))
   else
-    (⟨t10117, t10119, t10121⟩, (8209 : Int))
+    (⟨t10056, t10058, t10060⟩, (8209 : Int))
 
 /-- extracted from the C++ template at T = Sym; 2 path(s) -/
 def Euler.nearestRotation_ZXZ {α : Type} [Add α] [Sub α] [Mul α] [Div α] [LT α] [DecidableLT α] [OfNat α 281474976710656] [OfNat α 884279719003555] (angleMod : α → α) (xyzRot : V3 α) (target : V3 α) : (V3 α) :=
-  let t10076 := (target.x + (angleMod (xyzRot.x - target.x)))
-  let t10078 := (target.y + (angleMod (xyzRot.y - target.y)))
-  let t10080 := (target.z + (angleMod (xyzRot.z - target.z)))
-  let t10093 := (target.z + (angleMod ((((884279719003555 : α) / (281474976710656 : α)) + t10080) - target.z)))
-  let t10094 := (t10080 - target.z)
-  let t10095 := (t10078 - target.y)
-  let t10096 := (t10076 - target.x)
-  let t10097 := (t10093 - target.z)
-  let t10104 := (((t10096 * t10096) + (t10095 * t10095)) + (t10094 * t10094))
-  let t10155 := (target.y + (angleMod ((((884279719003555 : α) / (281474976710656 : α)) + t10078) - target.y)))
-  let t10159 := (t10155 - target.y)
-  let t10175 := (target.x + (angleMod ((((884279719003555 : α) / (281474976710656 : α)) - t10076) - target.x)))
-  let t10176 := (t10175 - target.x)
-  let t10179 := (((t10176 * t10176) + (t10159 * t10159)) + (t10097 * t10097))
-  if t10179 < t10104 then
-    ⟨t10175, t10155, t10093⟩
+  let t10015 := (target.x + (angleMod (xyzRot.x - target.x)))
+  let t10017 := (target.y + (angleMod (xyzRot.y - target.y)))
+  let t10019 := (target.z + (angleMod (xyzRot.z - target.z)))
+  let t10032 := (target.z + (angleMod ((((884279719003555 : α) / (281474976710656 : α)) + t10019) - target.z)))
+  let t10033 := (t10019 - target.z)
+  let t10034 := (t10017 - target.y)
+  let t10035 := (t10015 - target.x)
+  let t10036 := (t10032 - target.z)
+  let t10043 := (((t10035 * t10035) + (t10034 * t10034)) + (t10033 * t10033))
+  let t10094 := (target.y + (angleMod ((((884279719003555 : α) / (281474976710656 : α)) + t10017) - target.y)))
+  let t10098 := (t10094 - target.y)
+  let t10114 := (target.x + (angleMod ((((884279719003555 : α) / (281474976710656 : α)) - t10015) - target.x)))
+  let t10115 := (t10114 - target.x)
+  let t10118 := (((t10115 * t10115) + (t10098 * t10098)) + (t10036 * t10036))
+  if t10118 < t10043 then
+    ⟨t10114, t10094, t10032⟩
   else
-    ⟨t10076, t10078, t10080⟩
+    ⟨t10015, t10017, t10019⟩
 
 /-- extracted from the C++ template at T = Sym; 2 path(s) -/
 def Euler.makeNear_ZXZ {α : Type} [Add α] [Sub α] [Mul α] [Div α] [LT α] [DecidableLT α] [OfNat α 281474976710656] [OfNat α 884279719003555] (angleMod : α → α) (a : V3 α) (t : V3 α) : ((V3 α) × Int) :=
-  let t10117 := (t.x + (angleMod (a.x - t.x)))
-  let t10119 := (t.y + (angleMod (a.y - t.y)))
-  let t10121 := (t.z + (angleMod (a.z - t.z)))
-  let t10129 := (t.x + (angleMod ((((884279719003555 : α) / (281474976710656 : α)) + t10117) - t.x)))
-  let t10131 := (t.y + (angleMod ((((884279719003555 : α) / (281474976710656 : α)) - t10119) - t.y)))
-  let t10133 := (t.z + (angleMod ((((884279719003555 : α) / (281474976710656 : α)) + t10121) - t.z)))
-  let t10134 := (t10121 - t.z)
-  let t10135 := (t10119 - t.y)
-  let t10136 := (t10117 - t.x)
-  let t10137 := (t10133 - t.z)
-  let t10138 := (t10131 - t.y)
-  let t10139 := (t10129 - t.x)
-  let t10185 := (((t10135 * t10135) + (t10134 * t10134)) + (t10136 * t10136))
-  let t10187 := (((t10138 * t10138) + (t10137 * t10137)) + (t10139 * t10139))
-  if t10187 < t10185 then
-    (⟨t10129, t10131, t10133⟩, (8465 : Int))
+  let t10056 := (t.x + (angleMod (a.x - t.x)))
+  let t10058 := (t.y + (angleMod (a.y - t.y)))
+  let t10060 := (t.z + (angleMod (a.z - t.z)))
+  let t10068 := (t.x + (angleMod ((((884279719003555 : α) / (281474976710656 : α)) + t10056) - t.x)))
+  let t10070 := (t.y + (angleMod ((((884279719003555 : α) / (281474976710656 : α)) - t10058) - t.y)))
+  let t10072 := (t.z + (angleMod ((((884279719003555 : α) / (281474976710656 : α)) + t10060) - t.z)))
+  let t10073 := (t10060 - t.z)
+  let t10074 := (t10058 - t.y)
+  let t10075 := (t10056 - t.x)
+  let t10076 := (t10072 - t.z)
+  let t10077 := (t10070 - t.y)
+  let t10078 := (t10068 - t.x)
+  let t10124 := (((t10074 * t10074) + (t10073 * t10073)) + (t10075 * t10075))
+  let t10126 := (((t10077 * t10077) + (t10076 * t10076)) + (t10078 * t10078))
+  if t10126 < t10124 then
+    (⟨t10068, t10070, t10072⟩, (8465 : Int))
   else
-    (⟨t10117, t10119, t10121⟩, (8465 : Int))
+    (⟨t10056, t10058, t10060⟩, (8465 : Int))
 
 /-- extracted from the C++ template at T = Sym; 2 path(s) -/
 def Euler.nearestRotation_XYZr {α : Type} [Add α] [Sub α] [Mul α] [Div α] [LT α] [DecidableLT α] [OfNat α 281474976710656] [OfNat α 884279719003555] (angleMod : α → α) (xyzRot : V3 α) (target : V3 α) : (V3 α) :=
-  let t10076 := (target.x + (angleMod (xyzRot.x - target.x)))
-  let t10078 := (target.y + (angleMod (xyzRot.y - target.y)))
-  let t10080 := (target.z + (angleMod (xyzRot.z - target.z)))
-  let t10089 := (target.x + (angleMod ((((884279719003555 : α) / (281474976710656 : α)) + t10076) - target.x)))
-  let t10091 := (target.y + (angleMod ((((884279719003555 : α) / (281474976710656 : α)) - t10078) - target.y)))
-  let t10093 := (target.z + (angleMod ((((884279719003555 : α) / (281474976710656 : α)) + t10080) - target.z)))
-  let t10094 := (t10080 - target.z)
-  let t10095 := (t10078 - target.y)
-  let t10096 := (t10076 - target.x)
-  let t10097 := (t10093 - target.z)
-  let t10098 := (t10091 - target.y)
-  let t10099 := (t10089 - target.x)
-  let t10104 := (((t10096 * t10096) + (t10095 * t10095)) + (t10094 * t10094))
-  let t10109 := (((t10099 * t10099) + (t10098 * t10098)) + (t10097 * t10097))
-  if t10109 < t10104 then
-    ⟨t10089, t10091, t10093⟩
+  let t10015 := (target.x + (angleMod (xyzRot.x - target.x)))
+  let t10017 := (target.y + (angleMod (xyzRot.y - target.y)))
+  let t10019 := (target.z + (angleMod (xyzRot.z - target.z)))
+  let t10028 := (target.x + (angleMod ((((884279719003555 : α) / (281474976710656 : α)) + t10015) - target.x)))
+  let t10030 := (target.y + (angleMod ((((884279719003555 : α) / (281474976710656 : α)) - t10017) - target.y)))
+  let t10032 := (target.z + (angleMod ((((884279719003555 : α) / (281474976710656 : α)) + t10019) - target.z)))
+  let t10033 := (t10019 - target.z)
+  let t10034 := (t10017 - target.y)
+  let t10035 := (t10015 - target.x)
+  let t10036 := (t10032 - target.z)
+  let t10037 := (t10030 - target.y)
+  let t10038 := (t10028 - target.x)
+  let t10043 := (((t10035 * t10035) + (t10034 * t10034)) + (t10033 * t10033))
+  let t10048 := (((t10038 * t10038) + (t10037 * t10037)) + (t10036 * t10036))
+  if t10048 < t10043 then
+    ⟨t10028, t10030, t10032⟩
   else
-    ⟨t10076, t10078, t10080⟩
+    ⟨t10015, t10017, t10019⟩
 
 /-- extracted from the C++ template at T = Sym; 2 path(s) -/
 def Euler.makeNear_XYZr {α : Type} [Add α] [Sub α] [Mul α] [Div α] [LT α] [DecidableLT α] [OfNat α 281474976710656] [OfNat α 884279719003555] (angleMod : α → α) (a : V3 α) (t : V3 α) : ((V3 α) × Int) :=
-  let t10117 := (t.x + (angleMod (a.x - t.x)))
-  let t10119 := (t.y + (angleMod (a.y - t.y)))
-  let t10121 := (t.z + (angleMod (a.z - t.z)))
-  let t10129 := (t.x + (angleMod ((((884279719003555 : α) / (281474976710656 : α)) + t10117) - t.x)))
-  let t10131 := (t.y + (angleMod ((((884279719003555 : α) / (281474976710656 : α)) - t10119) - t.y)))
-  let t10133 := (t.z + (angleMod ((((884279719003555 : α) / (281474976710656 : α)) + t10121) - t.z)))
-  let t10134 := (t10121 - t.z)
-  let t10135 := (t10119 - t.y)
-  let t10136 := (t10117 - t.x)
-  let t10137 := (t10133 - t.z)
-  let t10138 := (t10131 - t.y)
-  let t10139 := (t10129 - t.x)
-  let t10189 := (((t10134 * t10134) + (t10135 * t10135)) + (t10136 * t10136))
-  let t10191 := (((t10137 * t10137) + (t10138 * t10138)) + (t10139 * t10139))
-  if t10191 < t10189 then
-    (⟨t10129, t10131, t10133⟩, (8192 : Int))
+  let t10056 := (t.x + (angleMod (a.x - t.x)))
+  let t10058 := (t.y + (angleMod (a.y - t.y)))
+  let t10060 := (t.z + (angleMod (a.z - t.z)))
+  let t10068 := (t.x + (angleMod ((((884279719003555 : α) / (281474976710656 : α)) + t10056) - t.x)))
+  let t10070 := (t.y + (angleMod ((((884279719003555 : α) / (281474976710656 : α)) - t10058) - t.y)))
+  let t10072 := (t.z + (angleMod ((((884279719003555 : α) / (281474976710656 : α)) + t10060) - t.z)))
+  let t10073 := (t10060 - t.z)
+  let t10074 := (t10058 - t.y)
+  let t10075 := (t10056 - t.x)
+  let t10076 := (t10072 - t.z)
+  let t10077 := (t10070 - t.y)
+  let t10078 := (t10068 - t.x)
+  let t10128 := (((t10073 * t10073) + (t10074 * t10074)) + (t10075 * t10075))
+  let t10130 := (((t10076 * t10076) + (t10077 * t10077)) + (t10078 * t10078))
+  if t10130 < t10128 then
+    (⟨t10068, t10070, t10072⟩, (8192 : Int))
   else
-    (⟨t10117, t10119, t10121⟩, (8192 : Int))
+    (⟨t10056, t10058, t10060⟩, (8192 : Int))
 
 /-- extracted from the C++ template at T = Sym; 2 path(s) -/
 def Euler.nearestRotation_XZYr {α : Type} [Add α] [Sub α] [Mul α] [Div α] [LT α] [DecidableLT α] [OfNat α 281474976710656] [OfNat α 884279719003555] (angleMod : α → α) (xyzRot : V3 α) (target : V3 α) : (V3 α) :=
-  let t10076 := (target.x + (angleMod (xyzRot.x - target.x)))
-  let t10078 := (target.y + (angleMod (xyzRot.y - target.y)))
-  let t10080 := (target.z + (angleMod (xyzRot.z - target.z)))
-  let t10093 := (target.z + (angleMod ((((884279719003555 : α) / (281474976710656 : α)) + t10080) - target.z)))
-  let t10094 := (t10080 - target.z)
-  let t10095 := (t10078 - target.y)
-  let t10096 := (t10076 - target.x)
-  let t10097 := (t10093 - target.z)
-  let t10104 := (((t10096 * t10096) + (t10095 * t10095)) + (t10094 * t10094))
-  let t10155 := (target.y + (angleMod ((((884279719003555 : α) / (281474976710656 : α)) + t10078) - target.y)))
-  let t10159 := (t10155 - target.y)
-  let t10175 := (target.x + (angleMod ((((884279719003555 : α) / (281474976710656 : α)) - t10076) - target.x)))
-  let t10176 := (t10175 - target.x)
-  let t10179 := (((t10176 * t10176) + (t10159 * t10159)) + (t10097 * t10097))
-  if t10179 < t10104 then
-    ⟨t10175, t10155, t10093⟩
+  let t10015 := (target.x + (angleMod (xyzRot.x - target.x)))
+  let t10017 := (target.y + (angleMod (xyzRot.y - target.y)))
+  let t10019 := (target.z + (angleMod (xyzRot.z - target.z)))
+  let t10032 := (target.z + (angleMod ((((884279719003555 : α) / (281474976710656 : α)) + t10019) - target.z)))
+  let t10033 := (t10019 - target.z)
+  let t10034 := (t10017 - target.y)
+  let t10035 := (t10015 - target.x)
+  let t10036 := (t10032 - target.z)
+  let t10043 := (((t10035 * t10035) + (t10034 * t10034)) + (t10033 * t10033))
+  let t10094 := (target.y + (angleMod ((((884279719003555 : α) / (281474976710656 : α)) + t10017) - target.y)))
+  let t10098 := (t10094 - target.y)
+  let t10114 := (target.x + (angleMod ((((884279719003555 : α) / (281474976710656 : α)) - t10015) - target.x)))
+  let t10115 := (t10114 - target.x)
+  let t10118 := (((t10115 * t10115) + (t10098 * t10098)) + (t10036 * t10036))
+  if t10118 < t10043 then
+    ⟨t10114, t10094, t10032⟩
   else
-    ⟨t10076, t10078, t10080⟩
+    ⟨t10015, t10017, t10019⟩
 
 /-- extracted from the C++ template at T = Sym; 2 path(s) -/
 def Euler.makeNear_XZYr {α : Type} [Add α] [Sub α] [Mul α] [Div α] [LT α] [DecidableLT α] [OfNat α 281474976710656] [OfNat α 884279719003555] (angleMod : α → α) (a : V3 α) (t : V3 α) : ((V3 α) × Int) :=
-  let t10117 := (t.x + (angleMod (a.x - t.x)))
-  let t10119 := (t.y + (angleMod (a.y - t.y)))
-  let t10121 := (t.z + (angleMod (a.z - t.z)))
-  let t10129 := (t.x + (angleMod ((((884279719003555 : α) / (281474976710656 : α)) + t10117) - t.x)))
-  let t10131 := (t.y + (angleMod ((((884279719003555 : α) / (281474976710656 : α)) - t10119) - t.y)))
-  let t10133 := (t.z + (angleMod ((((884279719003555 : α) / (281474976710656 : α)) + t10121) - t.z)))
-  let t10134 := (t10121 - t.z)
-  let t10135 := (t10119 - t.y)
-  let t10136 := (t10117 - t.x)
-  let t10137 := (t10133 - t.z)
-  let t10138 := (t10131 - t.y)
-  let t10139 := (t10129 - t.x)
-  let t10185 := (((t10135 * t10135) + (t10134 * t10134)) + (t10136 * t10136))
-  let t10187 := (((t10138 * t10138) + (t10137 * t10137)) + (t10139 * t10139))
-  if t10187 < t10185 then
-    (⟨t10129, t10131, t10133⟩, (8448 : Int))
+  let t10056 := (t.x + (angleMod (a.x - t.x)))
+  let t10058 := (t.y + (angleMod (a.y - t.y)))
+  let t10060 := (t.z + (angleMod (a.z - t.z)))
+  let t10068 := (t.x + (angleMod ((((884279719003555 : α) / (281474976710656 : α)) + t10056) - t.x)))
+  let t10070 := (t.y + (angleMod ((((884279719003555 : α) / (281474976710656 : α)) - t10058) - t.y)))
+  let t10072 := (t.z + (angleMod ((((884279719003555 : α) / (281474976710656 : α)) + t10060) - t.z)))
+  let t10073 := (t10060 - t.z)
+  let t10074 := (t10058 - t.y)
+  let t10075 := (t10056 - t.x)
+  let t10076 := (t10072 - t.z)
+  let t10077 := (t10070 - t.y)
+  let t10078 := (t10068 - t.x)
+  let t10124 := (((t10074 * t10074) + (t10073 * t10073)) + (t10075 * t10075))
+  let t10126 := (((t10077 * t10077) + (t10076 * t10076)) + (t10078 * t10078))
+  if t10126 < t10124 then
+    (⟨t10068, t10070, t10072⟩, (8448 : Int))
   else
-    (⟨t10117, t10119, t10121⟩, (8448 : Int))
+    (⟨t10056, t10058, t10060⟩, (8448 : Int))
 
 /-- extracted from the C++ template at T = Sym; 2 path(s) -/
 def Euler.nearestRotation_YZXr {α : Type} [Add α] [Sub α] [Mul α] [Div α] [LT α] [DecidableLT α] [OfNat α 281474976710656] [OfNat α 884279719003555] (angleMod : α → α) (xyzRot : V3 α) (target : V3 α) : (V3 α) :=
-  let t10076 := (target.x + (angleMod (xyzRot.x - target.x)))
-  let t10078 := (target.y + (angleMod (xyzRot.y - target.y)))
-  let t10080 := (target.z + (angleMod (xyzRot.z - target.z)))
-  let t10093 := (target.z + (angleMod ((((884279719003555 : α) / (281474976710656 : α)) + t10080) - target.z)))
-  let t10094 := (t10080 - target.z)
-  let t10095 := (t10078 - target.y)
-  let t10096 := (t10076 - target.x)
-  let t10097 := (t10093 - target.z)
-  let t10104 := (((t10096 * t10096) + (t10095 * t10095)) + (t10094 * t10094))
-  let t10155 := (target.y + (angleMod ((((884279719003555 : α) / (281474976710656 : α)) + t10078) - target.y)))
-  let t10159 := (t10155 - target.y)
-  let t10175 := (target.x + (angleMod ((((884279719003555 : α) / (281474976710656 : α)) - t10076) - target.x)))
-  let t10176 := (t10175 - target.x)
-  let t10179 := (((t10176 * t10176) + (t10159 * t10159)) + (t10097 * t10097))
-  if t10179 < t10104 then
-    ⟨t10175, t10155, t10093⟩
+  let t10015 := (target.x + (angleMod (xyzRot.x - target.x)))
+  let t10017 := (target.y + (angleMod (xyzRot.y - target.y)))
+  let t10019 := (target.z + (angleMod (xyzRot.z - target.z)))
+  let t10032 := (target.z + (angleMod ((((884279719003555 : α) / (281474976710656 : α)) + t10019) - target.z)))
+  let t10033 := (t10019 - target.z)
+  let t10034 := (t10017 - target.y)
+  let t10035 := (t10015 - target.x)
+  let t10036 := (t10032 - target.z)
+  let t10043 := (((t10035 * t10035) + (t10034 * t10034)) + (t10033 * t10033))
+  let t10094 := (target.y + (angleMod ((((884279719003555 : α) / (281474976710656 : α)) + t10017) - target.y)))
+  let t10098 := (t10094 - target.y)
+  let t10114 := (target.x + (angleMod ((((884279719003555 : α) / (281474976710656 : α)) - t10015) - target.x)))
+  let t10115 := (t10114 - target.x)
+  let t10118 := (((t10115 * t10115) + (t10098 * t10098)) + (t10036 * t10036))
+  if t10118 < t10043 then
+    ⟨t10114, t10094, t10032⟩
   else
-    ⟨t10076, t10078, t10080⟩
+    ⟨t10015, t10017, t10019⟩
 
 /-- extracted from the C++ template at T = Sym; 2 path(s) -/
 def Euler.makeNear_YZXr {α : Type} [Add α] [Sub α] [Mul α] [Div α] [LT α] [DecidableLT α] [OfNat α 281474976710656] [OfNat α 884279719003555] (angleMod : α → α) (a : V3 α) (t : V3 α) : ((V3 α) × Int) :=
-  let t10117 := (t.x + (angleMod (a.x - t.x)))
-  let t10119 := (t.y + (angleMod (a.y - t.y)))
-  let t10121 := (t.z + (angleMod (a.z - t.z)))
-  let t10129 := (t.x + (angleMod ((((884279719003555 : α) / (281474976710656 : α)) + t10117) - t.x)))
-  let t10131 := (t.y + (angleMod ((((884279719003555 : α) / (281474976710656 : α)) - t10119) - t.y)))
-  let t10133 := (t.z + (angleMod ((((884279719003555 : α) / (281474976710656 : α)) + t10121) - t.z)))
-  let t10134 := (t10121 - t.z)
-  let t10135 := (t10119 - t.y)
-  let t10136 := (t10117 - t.x)
-  let t10137 := (t10133 - t.z)
-  let t10138 := (t10131 - t.y)
-  let t10139 := (t10129 - t.x)
-  let t10181 := (((t10135 * t10135) + (t10136 * t10136)) + (t10134 * t10134))
-  let t10183 := (((t10138 * t10138) + (t10139 * t10139)) + (t10137 * t10137))
-  if t10183 < t10181 then
-    (⟨t10129, t10131, t10133⟩, (4096 : Int))
+  let t10056 := (t.x + (angleMod (a.x - t.x)))
+  let t10058 := (t.y + (angleMod (a.y - t.y)))
+  let t10060 := (t.z + (angleMod (a.z - t.z)))
+  let t10068 := (t.x + (angleMod ((((884279719003555 : α) / (281474976710656 : α)) + t10056) - t.x)))
+  let t10070 := (t.y + (angleMod ((((884279719003555 : α) / (281474976710656 : α)) - t10058) - t.y)))
+  let t10072 := (t.z + (angleMod ((((884279719003555 : α) / (281474976710656 : α)) + t10060) - t.z)))
+  let t10073 := (t10060 - t.z)
+  let t10074 := (t10058 - t.y)
+  let t10075 := (t10056 - t.x)
+  let t10076 := (t10072 - t.z)
+  let t10077 := (t10070 - t.y)
+  let t10078 := (t10068 - t.x)
+  let t10120 := (((t10074 * t10074) + (t10075 * t10075)) + (t10073 * t10073))
+  let t10122 := (((t10077 * t10077) + (t10078 * t10078)) + (t10076 * t10076))
+  if t10122 < t10120 then
+    (⟨t10068, t10070, t10072⟩, (4096 : Int))
   else
-    (⟨t10117, t10119, t10121⟩, (4096 : Int))
+    (⟨t10056, t10058, t10060⟩, (4096 : Int))
 
 /-- extracted from the C++ template at T = Sym; 2 path(s) -/
 def Euler.nearestRotation_YXZr {α : Type} [Add α] [Sub α] [Mul α] [Div α] [LT α] [DecidableLT α] [OfNat α 281474976710656] [OfNat α 884279719003555] (angleMod : α → α) (xyzRot : V3 α) (target : V3 α) : (V3 α) :=
-  let t10076 := (target.x + (angleMod (xyzRot.x - target.x)))
-  let t10078 := (target.y + (angleMod (xyzRot.y - target.y)))
-  let t10080 := (target.z + (angleMod (xyzRot.z - target.z)))
-  let t10089 := (target.x + (angleMod ((((884279719003555 : α) / (281474976710656 : α)) + t10076) - target.x)))
-  let t10094 := (t10080 - target.z)
-  let t10095 := (t10078 - target.y)
-  let t10096 := (t10076 - target.x)
-  let t10099 := (t10089 - target.x)
-  let t10104 := (((t10096 * t10096) + (t10095 * t10095)) + (t10094 * t10094))
-  let t10155 := (target.y + (angleMod ((((884279719003555 : α) / (281474976710656 : α)) + t10078) - target.y)))
-  let t10157 := (target.z + (angleMod ((((884279719003555 : α) / (281474976710656 : α)) - t10080) - target.z)))
-  let t10158 := (t10157 - target.z)
-  let t10159 := (t10155 - target.y)
-  let t10163 := (((t10099 * t10099) + (t10159 * t10159)) + (t10158 * t10158))
-  if t10163 < t10104 then
-    ⟨t10089, t10155, t10157⟩
+  let t10015 := (target.x + (angleMod (xyzRot.x - target.x)))
+  let t10017 := (target.y + (angleMod (xyzRot.y - target.y)))
+  let t10019 := (target.z + (angleMod (xyzRot.z - target.z)))
+  let t10028 := (target.x + (angleMod ((((884279719003555 : α) / (281474976710656 : α)) + t10015) - target.x)))
+  let t10033 := (t10019 - target.z)
+  let t10034 := (t10017 - target.y)
+  let t10035 := (t10015 - target.x)
+  let t10038 := (t10028 - target.x)
+  let t10043 := (((t10035 * t10035) + (t10034 * t10034)) + (t10033 * t10033))
+  let t10094 := (target.y + (angleMod ((((884279719003555 : α) / (281474976710656 : α)) + t10017) - target.y)))
+  let t10096 := (target.z + (angleMod ((((884279719003555 : α) / (281474976710656 : α)) - t10019) - target.z)))
+  let t10097 := (t10096 - target.z)
+  let t10098 := (t10094 - target.y)
+  let t10102 := (((t10038 * t10038) + (t10098 * t10098)) + (t10097 * t10097))
+  if t10102 < t10043 then
+    ⟨t10028, t10094, t10096⟩
   else
-    ⟨t10076, t10078, t10080⟩
+    ⟨t10015, t10017, t10019⟩
 
 /-- extracted from the C++ template at T = Sym; 2 path(s) -/
 def Euler.makeNear_YXZr {α : Type} [Add α] [Sub α] [Mul α] [Div α] [LT α] [DecidableLT α] [OfNat α 281474976710656] [OfNat α 884279719003555] (angleMod : α → α) (a : V3 α) (t : V3 α) : ((V3 α) × Int) :=
-  let t10117 := (t.x + (angleMod (a.x - t.x)))
-  let t10119 := (t.y + (angleMod (a.y - t.y)))
-  let t10121 := (t.z + (angleMod (a.z - t.z)))
-  let t10129 := (t.x + (angleMod ((((884279719003555 : α) / (281474976710656 : α)) + t10117) - t.x)))
-  let t10131 := (t.y + (angleMod ((((884279719003555 : α) / (281474976710656 : α)) - t10119) - t.y)))
-  let t10133 := (t.z + (angleMod ((((884279719003555 : α) / (281474976710656 : α)) + t10121) - t.z)))
-  let t10134 := (t10121 - t.z)
-  let t10135 := (t10119 - t.y)
-  let t10136 := (t10117 - t.x)
-  let t10137 := (t10133 - t.z)
-  let t10138 := (t10131 - t.y)
-  let t10139 := (t10129 - t.x)
-  let t10169 := (((t10134 * t10134) + (t10136 * t10136)) + (t10135 * t10135))
-  let t10171 := (((t10137 * t10137) + (t10139 * t10139)) + (t10138 * t10138))
-  if t10171 < t10169 then
-    (⟨t10129, t10131, t10133⟩, (4352 : Int))
+  let t10056 := (t.x + (angleMod (a.x - t.x)))
+  let t10058 := (t.y + (angleMod (a.y - t.y)))
+  let t10060 := (t.z + (angleMod (a.z - t.z)))
+  let t10068 := (t.x + (angleMod ((((884279719003555 : α) / (281474976710656 : α)) + t10056) - t.x)))
+  let t10070 := (t.y + (angleMod ((((884279719003555 : α) / (281474976710656 : α)) - t10058) - t.y)))
+  let t10072 := (t.z + (angleMod ((((884279719003555 : α) / (281474976710656 : α)) + t10060) - t.z)))
+  let t10073 := (t10060 - t.z)
+  let t10074 := (t10058 - t.y)
+  let t10075 := (t10056 - t.x)
+  let t10076 := (t10072 - t.z)
+  let t10077 := (t10070 - t.y)
+  let t10078 := (t10068 - t.x)
+  let t10108 := (((t10073 * t10073) + (t10075 * t10075)) + (t10074 * t10074))
+  let t10110 := (((t10076 * t10076) + (t10078 * t10078)) + (t10077 * t10077))
+  if t10110 < t10108 then
+    (⟨t10068, t10070, t10072⟩, (4352 : Int))
   else
-    (⟨t10117, t10119, t10121⟩, (4352 : Int))
+    (⟨t10056, t10058, t10060⟩, (4352 : Int))
 
 /-- extracted from the C++ template at T = Sym; 2 path(s) -/
 def Euler.nearestRotation_ZXYr {α : Type} [Add α] [Sub α] [Mul α] [Div α] [LT α] [DecidableLT α] [OfNat α 281474976710656] [OfNat α 884279719003555] (angleMod : α → α) (xyzRot : V3 α) (target : V3 α) : (V3 α) :=
-  let t10076 := (target.x + (angleMod (xyzRot.x - target.x)))
-  let t10078 := (target.y + (angleMod (xyzRot.y - target.y)))
-  let t10080 := (target.z + (angleMod (xyzRot.z - target.z)))
-  let t10089 := (target.x + (angleMod ((((884279719003555 : α) / (281474976710656 : α)) + t10076) - target.x)))
-  let t10094 := (t10080 - target.z)
-  let t10095 := (t10078 - target.y)
-  let t10096 := (t10076 - target.x)
-  let t10099 := (t10089 - target.x)
-  let t10104 := (((t10096 * t10096) + (t10095 * t10095)) + (t10094 * t10094))
-  let t10155 := (target.y + (angleMod ((((884279719003555 : α) / (281474976710656 : α)) + t10078) - target.y)))
-  let t10157 := (target.z + (angleMod ((((884279719003555 : α) / (281474976710656 : α)) - t10080) - target.z)))
-  let t10158 := (t10157 - target.z)
-  let t10159 := (t10155 - target.y)
-  let t10163 := (((t10099 * t10099) + (t10159 * t10159)) + (t10158 * t10158))
-  if t10163 < t10104 then
-    ⟨t10089, t10155, t10157⟩
+  let t10015 := (target.x + (angleMod (xyzRot.x - target.x)))
+  let t10017 := (target.y + (angleMod (xyzRot.y - target.y)))
+  let t10019 := (target.z + (angleMod (xyzRot.z - target.z)))
+  let t10028 := (target.x + (angleMod ((((884279719003555 : α) / (281474976710656 : α)) + t10015) - target.x)))
+  let t10033 := (t10019 - target.z)
+  let t10034 := (t10017 - target.y)
+  let t10035 := (t10015 - target.x)
+  let t10038 := (t10028 - target.x)
+  let t10043 := (((t10035 * t10035) + (t10034 * t10034)) + (t10033 * t10033))
+  let t10094 := (target.y + (angleMod ((((884279719003555 : α) / (281474976710656 : α)) + t10017) - target.y)))
+  let t10096 := (target.z + (angleMod ((((884279719003555 : α) / (281474976710656 : α)) - t10019) - target.z)))
+  let t10097 := (t10096 - target.z)
+  let t10098 := (t10094 - target.y)
+  let t10102 := (((t10038 * t10038) + (t10098 * t10098)) + (t10097 * t10097))
+  if t10102 < t10043 then
+    ⟨t10028, t10094, t10096⟩
   else
-    ⟨t10076, t10078, t10080⟩
+    ⟨t10015, t10017, t10019⟩
 
 /-- extracted from the C++ template at T = Sym; 2 path(s) -/
 def Euler.makeNear_ZXYr {α : Type} [Add α] [Sub α] [Mul α] [Div α] [LT α] [DecidableLT α] [OfNat α 281474976710656] [OfNat α 884279719003555] (angleMod : α → α) (a : V3 α) (t : V3 α) : ((V3 α) × Int) :=
-  let t10117 := (t.x + (angleMod (a.x - t.x)))
-  let t10119 := (t.y + (angleMod (a.y - t.y)))
-  let t10121 := (t.z + (angleMod (a.z - t.z)))
-  let t10129 := (t.x + (angleMod ((((884279719003555 : α) / (281474976710656 : α)) + t10117) - t.x)))
-  let t10131 := (t.y + (angleMod ((((884279719003555 : α) / (281474976710656 : α)) - t10119) - t.y)))
-  let t10133 := (t.z + (angleMod ((((884279719003555 : α) / (281474976710656 : α)) + t10121) - t.z)))
-  let t10134 := (t10121 - t.z)
-  let t10135 := (t10119 - t.y)
-  let t10136 := (t10117 - t.x)
-  let t10137 := (t10133 - t.z)
-  let t10138 := (t10131 - t.y)
-  let t10139 := (t10129 - t.x)
-  let t10165 := (((t10136 * t10136) + (t10134 * t10134)) + (t10135 * t10135))
-  let t10167 := (((t10139 * t10139) + (t10137 * t10137)) + (t10138 * t10138))
-  if t10167 < t10165 then
-    (⟨t10129, t10131, t10133⟩, (0 : Int))
+  let t10056 := (t.x + (angleMod (a.x - t.x)))
+  let t10058 := (t.y + (angleMod (a.y - t.y)))
+  let t10060 := (t.z + (angleMod (a.z - t.z)))
+  let t10068 := (t.x + (angleMod ((((884279719003555 : α) / (281474976710656 : α)) + t10056) - t.x)))
+  let t10070 := (t.y + (angleMod ((((884279719003555 : α) / (281474976710656 : α)) - t10058) - t.y)))
+  let t10072 := (t.z + (angleMod ((((884279719003555 : α) / (281474976710656 : α)) + t10060) - t.z)))
+  let t10073 := (t10060 - t.z)
+  let t10074 := (t10058 - t.y)
+  let t10075 := (t10056 - t.x)
+  let t10076 := (t10072 - t.z)
+  let t10077 := (t10070 - t.y)
+  let t10078 := (t10068 - t.x)
+  let t10104 := (((t10075 * t10075) + (t10073 * t10073)) + (t10074 * t10074))
+  let t10106 := (((t10078 * t10078) + (t10076 * t10076)) + (t10077 * t10077))
+  if t10106 < t10104 then
+    (⟨t10068, t10070, t10072⟩, (0 : Int))
   else
-    (⟨t10117, t10119, t10121⟩, (0 : Int))
+    (⟨t10056, t10058, t10060⟩, (0 : Int))
 
 /-- extracted from the C++ template at T = Sym; 2 path(s) -/
 def Euler.nearestRotation_ZYXr {α : Type} [Add α] [Sub α] [Mul α] [Div α] [LT α] [DecidableLT α] [OfNat α 281474976710656] [OfNat α 884279719003555] (angleMod : α → α) (xyzRot : V3 α) (target : V3 α) : (V3 α) :=
-  let t10076 := (target.x + (angleMod (xyzRot.x - target.x)))
-  let t10078 := (target.y + (angleMod (xyzRot.y - target.y)))
-  let t10080 := (target.z + (angleMod (xyzRot.z - target.z)))
-  let t10089 := (target.x + (angleMod ((((884279719003555 : α) / (281474976710656 : α)) + t10076) - target.x)))
-  let t10091 := (target.y + (angleMod ((((884279719003555 : α) / (281474976710656 : α)) - t10078) - target.y)))
-  let t10093 := (target.z + (angleMod ((((884279719003555 : α) / (281474976710656 : α)) + t10080) - target.z)))
-  let t10094 := (t10080 - target.z)
-  let t10095 := (t10078 - target.y)
-  let t10096 := (t10076 - target.x)
-  let t10097 := (t10093 - target.z)
-  let t10098 := (t10091 - target.y)
-  let t10099 := (t10089 - target.x)
-  let t10104 := (((t10096 * t10096) + (t10095 * t10095)) + (t10094 * t10094))
-  let t10109 := (((t10099 * t10099) + (t10098 * t10098)) + (t10097 * t10097))
-  if t10109 < t10104 then
-    ⟨t10089, t10091, t10093⟩
+  let t10015 := (target.x + (angleMod (xyzRot.x - target.x)))
+  let t10017 := (target.y + (angleMod (xyzRot.y - target.y)))
+  let t10019 := (target.z + (angleMod (xyzRot.z - target.z)))
+  let t10028 := (target.x + (angleMod ((((884279719003555 : α) / (281474976710656 : α)) + t10015) - target.x)))
+  let t10030 := (target.y + (angleMod ((((884279719003555 : α) / (281474976710656 : α)) - t10017) - target.y)))
+  let t10032 := (target.z + (angleMod ((((884279719003555 : α) / (281474976710656 : α)) + t10019) - target.z)))
+  let t10033 := (t10019 - target.z)
+  let t10034 := (t10017 - target.y)
+  let t10035 := (t10015 - target.x)
+  let t10036 := (t10032 - target.z)
+  let t10037 := (t10030 - target.y)
+  let t10038 := (t10028 - target.x)
+  let t10043 := (((t10035 * t10035) + (t10034 * t10034)) + (t10033 * t10033))
+  let t10048 := (((t10038 * t10038) + (t10037 * t10037)) + (t10036 * t10036))
+  if t10048 < t10043 then
+    ⟨t10028, t10030, t10032⟩
   else
-    ⟨t10076, t10078, t10080⟩
+    ⟨t10015, t10017, t10019⟩
 
 /-- extracted from the C++ template at T = Sym; 2 path(s) -/
 def Euler.makeNear_ZYXr {α : Type} [Add α] [Sub α] [Mul α] [Div α] [LT α] [DecidableLT α] [OfNat α 281474976710656] [OfNat α 884279719003555] (angleMod : α → α) (a : V3 α) (t : V3 α) : ((V3 α) × Int) :=
-  let t10117 := (t.x + (angleMod (a.x - t.x)))
-  let t10119 := (t.y + (angleMod (a.y - t.y)))
-  let t10121 := (t.z + (angleMod (a.z - t.z)))
-  let t10129 := (t.x + (angleMod ((((884279719003555 : α) / (281474976710656 : α)) + t10117) - t.x)))
-  let t10131 := (t.y + (angleMod ((((884279719003555 : α) / (281474976710656 : α)) - t10119) - t.y)))
-  let t10133 := (t.z + (angleMod ((((884279719003555 : α) / (281474976710656 : α)) + t10121) - t.z)))
-  let t10134 := (t10121 - t.z)
-  let t10135 := (t10119 - t.y)
-  let t10136 := (t10117 - t.x)
-  let t10137 := (t10133 - t.z)
-  let t10138 := (t10131 - t.y)
-  let t10139 := (t10129 - t.x)
-  let t10144 := (((t10136 * t10136) + (t10135 * t10135)) + (t10134 * t10134))
-  let t10149 := (((t10139 * t10139) + (t10138 * t10138)) + (t10137 * t10137))
-  if t10149 < t10144 then
-    (⟨t10129, t10131, t10133⟩, (256 : Int))
+  let t10056 := (t.x + (angleMod (a.x - t.x)))
+  let t10058 := (t.y + (angleMod (a.y - t.y)))
+  let t10060 := (t.z + (angleMod (a.z - t.z)))
+  let t10068 := (t.x + (angleMod ((((884279719003555 : α) / (281474976710656 : α)) + t10056) - t.x)))
+  let t10070 := (t.y + (angleMod ((((884279719003555 : α) / (281474976710656 : α)) - t10058) - t.y)))
+  let t10072 := (t.z + (angleMod ((((884279719003555 : α) / (281474976710656 : α)) + t10060) - t.z)))
+  let t10073 := (t10060 - t.z)
+  let t10074 := (t10058 - t.y)
+  let t10075 := (t10056 - t.x)
+  let t10076 := (t10072 - t.z)
+  let t10077 := (t10070 - t.y)
+  let t10078 := (t10068 - t.x)
+  let t10083 := (((t10075 * t10075) + (t10074 * t10074)) + (t10073 * t10073))
+  let t10088 := (((t10078 * t10078) + (t10077 * t10077)) + (t10076 * t10076))
+  if t10088 < t10083 then
+    (⟨t10068, t10070, t10072⟩, (256 : Int))
   else
-    (⟨t10117, t10119, t10121⟩, (256 : Int))
+    (⟨t10056, t10058, t10060⟩, (256 : Int))
 
 /-- extracted from the C++ template at T = Sym; 2 path(s) -/
 def Euler.nearestRotation_XZXr {α : Type} [Add α] [Sub α] [Mul α] [Div α] [LT α] [DecidableLT α] [OfNat α 281474976710656] [OfNat α 884279719003555] (angleMod : α → α) (xyzRot : V3 α) (target : V3 α) : (V3 α) :=
-  let t10076 := (target.x + (angleMod (xyzRot.x - target.x)))
-  let t10078 := (target.y + (angleMod (xyzRot.y - target.y)))
-  let t10080 := (target.z + (angleMod (xyzRot.z - target.z)))
-  let t10093 := (target.z + (angleMod ((((884279719003555 : α) / (281474976710656 : α)) + t10080) - target.z)))
-  let t10094 := (t10080 - target.z)
-  let t10095 := (t10078 - target.y)
-  let t10096 := (t10076 - target.x)
-  let t10097 := (t10093 - target.z)
-  let t10104 := (((t10096 * t10096) + (t10095 * t10095)) + (t10094 * t10094))
-  let t10155 := (target.y + (angleMod ((((884279719003555 : α) / (281474976710656 : α)) + t10078) - target.y)))
-  let t10159 := (t10155 - target.y)
-  let t10175 := (target.x + (angleMod ((((884279719003555 : α) / (281474976710656 : α)) - t10076) - target.x)))
-  let t10176 := (t10175 - target.x)
-  let t10179 := (((t10176 * t10176) + (t10159 * t10159)) + (t10097 * t10097))
-  if t10179 < t10104 then
-    ⟨t10175, t10155, t10093⟩
+  let t10015 := (target.x + (angleMod (xyzRot.x - target.x)))
+  let t10017 := (target.y + (angleMod (xyzRot.y - target.y)))
+  let t10019 := (target.z + (angleMod (xyzRot.z - target.z)))
+  let t10032 := (target.z + (angleMod ((((884279719003555 : α) / (281474976710656 : α)) + t10019) - target.z)))
+  let t10033 := (t10019 - target.z)
+  let t10034 := (t10017 - target.y)
+  let t10035 := (t10015 - target.x)
+  let t10036 := (t10032 - target.z)
+  let t10043 := (((t10035 * t10035) + (t10034 * t10034)) + (t10033 * t10033))
+  let t10094 := (target.y + (angleMod ((((884279719003555 : α) / (281474976710656 : α)) + t10017) - target.y)))
+  let t10098 := (t10094 - target.y)
+  let t10114 := (target.x + (angleMod ((((884279719003555 : α) / (281474976710656 : α)) - t10015) - target.x)))
+  let t10115 := (t10114 - target.x)
+  let t10118 := (((t10115 * t10115) + (t10098 * t10098)) + (t10036 * t10036))
+  if t10118 < t10043 then
+    ⟨t10114, t10094, t10032⟩
   else
-    ⟨t10076, t10078, t10080⟩
+    ⟨t10015, t10017, t10019⟩
 
 /-- extracted from the C++ template at T = Sym; 2 path(s) -/
 def Euler.makeNear_XZXr {α : Type} [Add α] [Sub α] [Mul α] [Div α] [LT α] [DecidableLT α] [OfNat α 281474976710656] [OfNat α 884279719003555] (angleMod : α → α) (a : V3 α) (t : V3 α) : ((V3 α) × Int) :=
-  let t10117 := (t.x + (angleMod (a.x - t.x)))
-  let t10119 := (t.y + (angleMod (a.y - t.y)))
-  let t10121 := (t.z + (angleMod (a.z - t.z)))
-  let t10129 := (t.x + (angleMod ((((884279719003555 : α) / (281474976710656 : α)) + t10117) - t.x)))
-  let t10131 := (t.y + (angleMod ((((884279719003555 : α) / (281474976710656 : α)) - t10119) - t.y)))
-  let t10133 := (t.z + (angleMod ((((884279719003555 : α) / (281474976710656 : α)) + t10121) - t.z)))
-  let t10134 := (t10121 - t.z)
-  let t10135 := (t10119 - t.y)
-  let t10136 := (t10117 - t.x)
-  let t10137 := (t10133 - t.z)
-  let t10138 := (t10131 - t.y)
-  let t10139 := (t10129 - t.x)
-  let t10185 := (((t10135 * t10135) + (t10134 * t10134)) + (t10136 * t10136))
-  let t10187 := (((t10138 * t10138) + (t10137 * t10137)) + (t10139 * t10139))
-  if t10187 < t10185 then
-    (⟨t10129, t10131, t10133⟩, (8464 : Int))
+  let t10056 := (t.x + (angleMod (a.x - t.x)))
+  let t10058 := (t.y + (angleMod (a.y - t.y)))
+  let t10060 := (t.z + (angleMod (a.z - t.z)))
+  let t10068 := (t.x + (angleMod ((((884279719003555 : α) / (281474976710656 : α)) + t10056) - t.x)))
+  let t10070 := (t.y + (angleMod ((((884279719003555 : α) / (281474976710656 : α)) - t10058) - t.y)))
+  let t10072 := (t.z + (angleMod ((((884279719003555 : α) / (281474976710656 : α)) + t10060) - t.z)))
+  let t10073 := (t10060 - t.z)
+  let t10074 := (t10058 - t.y)
+  let t10075 := (t10056 - t.x)
+  let t10076 := (t10072 - t.z)
+  let t10077 := (t10070 - t.y)
+  let t10078 := (t10068 - t.x)
+  let t10124 := (((t10074 * t10074) + (t10073 * t10073)) + (t10075 * t10075))
+  let t10126 := (((t10077 * t10077) + (t10076 * t10076)) + (t10078 * t10078))
+  if t10126 < t10124 then
+    (⟨t10068, t10070, t10072⟩, (8464 : Int))
   else
-    (⟨t10117, t10119, t10121⟩, (8464 : Int))
+    (⟨t10056, t10058, t10060⟩, (8464 : Int))
 
 /-- extracted from the C++ template at T = Sym; 2 path(s) -/
 def Euler.nearestRotation_XYXr {α : Type} [Add α] [Sub α] [Mul α] [Div α] [LT α] [DecidableLT α] [OfNat α 281474976710656] [OfNat α 884279719003555] (angleMod : α → α) (xyzRot : V3 α) (target : V3 α) : (V3 α) :=
-  let t10076 := (target.x + (angleMod (xyzRot.x - target.x)))
-  let t10078 := (target.y + (angleMod (xyzRot.y - target.y)))
-  let t10080 := (target.z + (angleMod (xyzRot.z - target.z)))
-  let t10089 := (target.x + (angleMod ((((884279719003555 : α) / (281474976710656 : α)) + t10076) - target.x)))
-  let t10091 := (target.y + (angleMod ((((884279719003555 : α) / (281474976710656 : α)) - t10078) - target.y)))
-  let t10093 := (target.z + (angleMod ((((884279719003555 : α) / (281474976710656 : α)) + t10080) - target.z)))
-  let t10094 := (t10080 - target.z)
-  let t10095 := (t10078 - target.y)
-  let t10096 := (t10076 - target.x)
-  let t10097 := (t10093 - target.z)
-  let t10098 := (t10091 - target.y)
-  let t10099 := (t10089 - target.x)
-  let t10104 := (((t10096 * t10096) + (t10095 * t10095)) + (t10094 * t10094))
-  let t10109 := (((t10099 * t10099) + (t10098 * t10098)) + (t10097 * t10097))
-  if t10109 < t10104 then
-    ⟨t10089, t10091, t10093⟩
+  let t10015 := (target.x + (angleMod (xyzRot.x - target.x)))
+  let t10017 := (target.y + (angleMod (xyzRot.y - target.y)))
+  let t10019 := (target.z + (angleMod (xyzRot.z - target.z)))
+  let t10028 := (target.x + (angleMod ((((884279719003555 : α) / (281474976710656 : α)) + t10015) - target.x)))
+  let t10030 := (target.y + (angleMod ((((884279719003555 : α) / (281474976710656 : α)) - t10017) - target.y)))
+  let t10032 := (target.z + (angleMod ((((884279719003555 : α) / (281474976710656 : α)) + t10019) - target.z)))
+  let t10033 := (t10019 - target.z)
+  let t10034 := (t10017 - target.y)
+  let t10035 := (t10015 - target.x)
+  let t10036 := (t10032 - target.z)
+  let t10037 := (t10030 - target.y)
+  let t10038 := (t10028 - target.x)
+  let t10043 := (((t10035 * t10035) + (t10034 * t10034)) + (t10033 * t10033))
+  let t10048 := (((t10038 * t10038) + (t10037 * t10037)) + (t10036 * t10036))
+  if t10048 < t10043 then
+    ⟨t10028, t10030, t10032⟩
   else
-    ⟨t10076, t10078, t10080⟩
+    ⟨t10015, t10017, t10019⟩
 
 /-- extracted from the C++ template at T = Sym; 2 path(s) -/
 def Euler.makeNear_XYXr {α : Type} [Add α] [Sub α] [Mul α] [Div α] [LT α] [DecidableLT α] [OfNat α 281474976710656] [OfNat α 884279719003555] (angleMod : α → α) (a : V3 α) (t : V3 α) : ((V3 α) × Int) :=
-  let t10117 := (t.x + (angleMod (a.x - t.x)))
-  let t10119 := (t.y + (angleMod (a.y - t.y)))
-  let t10121 := (t.z + (angleMod (a.z - t.z)))
-  let t10129 := (t.x + (angleMod ((((884279719003555 : α) / (281474976710656 : α)) + t10117) - t.x)))
-  let t10131 := (t.y + (angleMod ((((884279719003555 : α) / (281474976710656 : α)) - t10119) - t.y)))
-  let t10133 := (t.z + (angleMod ((((884279719003555 : α) / (281474976710656 : α)) + t10121) - t.z)))
-  let t10134 := (t10121 - t.z)
-  let t10135 := (t10119 - t.y)
-  let t10136 := (t10117 - t.x)
-  let t10137 := (t10133 - t.z)
-  let t10138 := (t10131 - t.y)
-  let t10139 := (t10129 - t.x)
-  let t10189 := (((t10134 * t10134) + (t10135 * t10135)) + (t10136 * t10136))
-  let t10191 := (((t10137 * t10137) + (t10138 * t10138)) + (t10139 * t10139))
-  if t10191 < t10189 then
-    (⟨t10129, t10131, t10133⟩, (8208 : Int))
+  let t10056 := (t.x + (angleMod (a.x - t.x)))
+  let t10058 := (t.y + (angleMod (a.y - t.y)))
+  let t10060 := (t.z + (angleMod (a.z - t.z)))
+  let t10068 := (t.x + (angleMod ((((884279719003555 : α) / (281474976710656 : α)) + t10056) - t.x)))
+  let t10070 := (t.y + (angleMod ((((884279719003555 : α) / (281474976710656 : α)) - t10058) - t.y)))
+  let t10072 := (t.z + (angleMod ((((884279719003555 : α) / (281474976710656 : α)) + t10060) - t.z)))
+  let t10073 := (t10060 - t.z)
+  let t10074 := (t10058 - t.y)
+  let t10075 := (t10056 - t.x)
+  let t10076 := (t10072 - t.z)
+  let t10077 := (t10070 - t.y)
+  let t10078 := (t10068 - t.x)
+  let t10128 := (((t10073 * t10073) + (t10074 * t10074)) + (t10075 * t10075))
+  let t10130 := (((t10076 * t10076) + (t10077 * t10077)) + (t10078 * t10078))
+  if t10130 < t10128 then
+    (⟨t10068, t10070, t10072⟩, (8208 : Int))
   else
-    (⟨t10117, t10119, t10121⟩, (8208 : Int))
+    (⟨t10056, t10058, t10060⟩, (8208 : Int))
 
 /-- extracted from the C++ template at T = Sym; 2 path(s) -/
 def Euler.nearestRotation_YXYr {α : Type} [Add α] [Sub α] [Mul α] [Div α] [LT α] [DecidableLT α] [OfNat α 281474976710656] [OfNat α 884279719003555] (angleMod : α → α) (xyzRot : V3 α) (target : V3 α) : (V3 α) :=
-  let t10076 := (target.x + (angleMod (xyzRot.x - target.x)))
-  let t10078 := (target.y + (angleMod (xyzRot.y - target.y)))
-  let t10080 := (target.z + (angleMod (xyzRot.z - target.z)))
-  let t10089 := (target.x + (angleMod ((((884279719003555 : α) / (281474976710656 : α)) + t10076) - target.x)))
-  let t10094 := (t10080 - target.z)
-  let t10095 := (t10078 - target.y)
-  let t10096 := (t10076 - target.x)
-  let t10099 := (t10089 - target.x)
-  let t10104 := (((t10096 * t10096) + (t10095 * t10095)) + (t10094 * t10094))
-  let t10155 := (target.y + (angleMod ((((884279719003555 : α) / (281474976710656 : α)) + t10078) - target.y)))
-  let t10157 := (target.z + (angleMod ((((884279719003555 : α) / (281474976710656 : α)) - t10080) - target.z)))
-  let t10158 := (t10157 - target.z)
-  let t10159 := (t10155 - target.y)
-  let t10163 := (((t10099 * t10099) + (t10159 * t10159)) + (t10158 * t10158))
-  if t10163 < t10104 then
-    ⟨t10089, t10155, t10157⟩
+  let t10015 := (target.x + (angleMod (xyzRot.x - target.x)))
+  let t10017 := (target.y + (angleMod (xyzRot.y - target.y)))
+  let t10019 := (target.z + (angleMod (xyzRot.z - target.z)))
+  let t10028 := (target.x + (angleMod ((((884279719003555 : α) / (281474976710656 : α)) + t10015) - target.x)))
+  let t10033 := (t10019 - target.z)
+  let t10034 := (t10017 - target.y)
+  let t10035 := (t10015 - target.x)
+  let t10038 := (t10028 - target.x)
+  let t10043 := (((t10035 * t10035) + (t10034 * t10034)) + (t10033 * t10033))
+  let t10094 := (target.y + (angleMod ((((884279719003555 : α) / (281474976710656 : α)) + t10017) - target.y)))
+  let t10096 := (target.z + (angleMod ((((884279719003555 : α) / (281474976710656 : α)) - t10019) - target.z)))
+  let t10097 := (t10096 - target.z)
+  let t10098 := (t10094 - target.y)
+  let t10102 := (((t10038 * t10038) + (t10098 * t10098)) + (t10097 * t10097))
+  if t10102 < t10043 then
+    ⟨t10028, t10094, t10096⟩
   else
-    ⟨t10076, t10078, t10080⟩
+    ⟨t10015, t10017, t10019⟩
 
 /-- extracted from the C++ template at T = Sym; 2 path(s) -/
 def Euler.makeNear_YXYr {α : Type} [Add α] [Sub α] [Mul α] [Div α] [LT α] [DecidableLT α] [OfNat α 281474976710656] [OfNat α 884279719003555] (angleMod : α → α) (a : V3 α) (t : V3 α) : ((V3 α) × Int) :=
-  let t10117 := (t.x + (angleMod (a.x - t.x)))
-  let t10119 := (t.y + (angleMod (a.y - t.y)))
-  let t10121 := (t.z + (angleMod (a.z - t.z)))
-  let t10129 := (t.x + (angleMod ((((884279719003555 : α) / (281474976710656 : α)) + t10117) - t.x)))
-  let t10131 := (t.y + (angleMod ((((884279719003555 : α) / (281474976710656 : α)) - t10119) - t.y)))
-  let t10133 := (t.z + (angleMod ((((884279719003555 : α) / (281474976710656 : α)) + t10121) - t.z)))
-  let t10134 := (t10121 - t.z)
-  let t10135 := (t10119 - t.y)
-  let t10136 := (t10117 - t.x)
-  let t10137 := (t10133 - t.z)
-  let t10138 := (t10131 - t.y)
-  let t10139 := (t10129 - t.x)
-  let t10169 := (((t10134 * t10134) + (t10136 * t10136)) + (t10135 * t10135))
-  let t10171 := (((t10137 * t10137) + (t10139 * t10139)) + (t10138 * t10138))
-  if t10171 < t10169 then
-    (⟨t10129, t10131, t10133⟩, (4368 : Int))
+  let t10056 := (t.x + (angleMod (a.x - t.x)))
+  let t10058 := (t.y + (angleMod (a.y - t.y)))
+  let t10060 := (t.z + (angleMod (a.z - t.z)))
+  let t10068 := (t.x + (angleMod ((((884279719003555 : α) / (281474976710656 : α)) + t10056) - t.x)))
+  let t10070 := (t.y + (angleMod ((((884279719003555 : α) / (281474976710656 : α)) - t10058) - t.y)))
+  let t10072 := (t.z + (angleMod ((((884279719003555 : α) / (281474976710656 : α)) + t10060) - t.z)))
+  let t10073 := (t10060 - t.z)
+  let t10074 := (t10058 - t.y)
+  let t10075 := (t10056 - t.x)
+  let t10076 := (t10072 - t.z)
+  let t10077 := (t10070 - t.y)
+  let t10078 := (t10068 - t.x)
+  let t10108 := (((t10073 * t10073) + (t10075 * t10075)) + (t10074 * t10074))
+  let t10110 := (((t10076 * t10076) + (t10078 * t10078)) + (t10077 * t10077))
+  if t10110 < t10108 then
+    (⟨t10068, t10070, t10072⟩, (4368 : Int))
   else
-    (⟨t10117, t10119, t10121⟩, (4368 : Int))
+    (⟨t10056, t10058, t10060⟩, (4368 : Int))
 
 /-- extracted from the C++ template at T = Sym; 2 path(s) -/
 def Euler.nearestRotation_YZYr {α : Type} [Add α] [Sub α] [Mul α] [Div α] [LT α] [DecidableLT α] [OfNat α 281474976710656] [OfNat α 884279719003555] (angleMod : α → α) (xyzRot : V3 α) (target : V3 α) : (V3 α) :=
-  let t10076 := (target.x + (angleMod (xyzRot.x - target.x)))
-  let t10078 := (target.y + (angleMod (xyzRot.y - target.y)))
-  let t10080 := (target.z + (angleMod (xyzRot.z - target.z)))
-  let t10093 := (target.z + (angleMod ((((884279719003555 : α) / (281474976710656 : α)) + t10080) - target.z)))
-  let t10094 := (t10080 - target.z)
-  let t10095 := (t10078 - target.y)
-  let t10096 := (t10076 - target.x)
-  let t10097 := (t10093 - target.z)
-  let t10104 := (((t10096 * t10096) + (t10095 * t10095)) + (t10094 * t10094))
-  let t10155 := (target.y + (angleMod ((((884279719003555 : α) / (281474976710656 : α)) + t10078) - target.y)))
-  let t10159 := (t10155 - target.y)
-  let t10175 := (target.x + (angleMod ((((884279719003555 : α) / (281474976710656 : α)) - t10076) - target.x)))
-  let t10176 := (t10175 - target.x)
-  let t10179 := (((t10176 * t10176) + (t10159 * t10159)) + (t10097 * t10097))
-  if t10179 < t10104 then
-    ⟨t10175, t10155, t10093⟩
+  let t10015 := (target.x + (angleMod (xyzRot.x - target.x)))
+  let t10017 := (target.y + (angleMod (xyzRot.y - target.y)))
+  let t10019 := (target.z + (angleMod (xyzRot.z - target.z)))
+  let t10032 := (target.z + (angleMod ((((884279719003555 : α) / (281474976710656 : α)) + t10019) - target.z)))
+  let t10033 := (t10019 - target.z)
+  let t10034 := (t10017 - target.y)
+  let t10035 := (t10015 - target.x)
+  let t10036 := (t10032 - target.z)
+  let t10043 := (((t10035 * t10035) + (t10034 * t10034)) + (t10033 * t10033))
+  let t10094 := (target.y + (angleMod ((((884279719003555 : α) / (281474976710656 : α)) + t10017) - target.y)))
+  let t10098 := (t10094 - target.y)
+  let t10114 := (target.x + (angleMod ((((884279719003555 : α) / (281474976710656 : α)) - t10015) - target.x)))
+  let t10115 := (t10114 - target.x)
+  let t10118 := (((t10115 * t10115) + (t10098 * t10098)) + (t10036 * t10036))
+  if t10118 < t10043 then
+    ⟨t10114, t10094, t10032⟩
   else
-    ⟨t10076, t10078, t10080⟩
+    ⟨t10015, t10017, t10019⟩
 
 /-- extracted from the C++ template at T = Sym; 2 path(s) -/
 def Euler.makeNear_YZYr {α : Type} [Add α] [Sub α] [Mul α] [Div α] [LT α] [DecidableLT α] [OfNat α 281474976710656] [OfNat α 884279719003555] (angleMod : α → α) (a : V3 α) (t : V3 α) : ((V3 α) × Int) :=
-  let t10117 := (t.x + (angleMod (a.x - t.x)))
-  let t10119 := (t.y + (angleMod (a.y - t.y)))
-  let t10121 := (t.z + (angleMod (a.z - t.z)))
-  let t10129 := (t.x + (angleMod ((((884279719003555 : α) / (281474976710656 : α)) + t10117) - t.x)))
-  let t10131 := (t.y + (angleMod ((((884279719003555 : α) / (281474976710656 : α)) - t10119) - t.y)))
-  let t10133 := (t.z + (angleMod ((((884279719003555 : α) / (281474976710656 : α)) + t10121) - t.z)))
-  let t10134 := (t10121 - t.z)
-  let t10135 := (t10119 - t.y)
-  let t10136 := (t10117 - t.x)
-  let t10137 := (t10133 - t.z)
-  let t10138 := (t10131 - t.y)
-  let t10139 := (t10129 - t.x)
-  let t10181 := (((t10135 * t10135) + (t10136 * t10136)) + (t10134 * t10134))
-  let t10183 := (((t10138 * t10138) + (t10139 * t10139)) + (t10137 * t10137))
-  if t10183 < t10181 then
-    (⟨t10129, t10131, t10133⟩, (4112 : Int))
+  let t10056 := (t.x + (angleMod (a.x - t.x)))
+  let t10058 := (t.y + (angleMod (a.y - t.y)))
+  let t10060 := (t.z + (angleMod (a.z - t.z)))
+  let t10068 := (t.x + (angleMod ((((884279719003555 : α) / (281474976710656 : α)) + t10056) - t.x)))
+  let t10070 := (t.y + (angleMod ((((884279719003555 : α) / (281474976710656 : α)) - t10058) - t.y)))
+  let t10072 := (t.z + (angleMod ((((884279719003555 : α) / (281474976710656 : α)) + t10060) - t.z)))
+  let t10073 := (t10060 - t.z)
+  let t10074 := (t10058 - t.y)
+  let t10075 := (t10056 - t.x)
+  let t10076 := (t10072 - t.z)
+  let t10077 := (t10070 - t.y)
+  let t10078 := (t10068 - t.x)
+  let t10120 := (((t10074 * t10074) + (t10075 * t10075)) + (t10073 * t10073))
+  let t10122 := (((t10077 * t10077) + (t10078 * t10078)) + (t10076 * t10076))
+  if t10122 < t10120 then
+    (⟨t10068, t10070, t10072⟩, (4112 : Int))
   else
-    (⟨t10117, t10119, t10121⟩, (4112 : Int))
+    (⟨t10056, t10058, t10060⟩, (4112 : Int))
 
 /-- extracted from the C++ template at T = Sym; 2 path(s) -/
 def Euler.nearestRotation_ZYZr {α : Type} [Add α] [Sub α] [Mul α] [Div α] [LT α] [DecidableLT α] [OfNat α 281474976710656] [OfNat α 884279719003555] (angleMod : α → α) (xyzRot : V3 α) (target : V3 α) : (V3 α) :=
-  let t10076 := (target.x + (angleMod (xyzRot.x - target.x)))
-  let t10078 := (target.y + (angleMod (xyzRot.y - target.y)))
-  let t10080 := (target.z + (angleMod (xyzRot.z - target.z)))
-  let t10089 := (target.x + (angleMod ((((884279719003555 : α) / (281474976710656 : α)) + t10076) - target.x)))
-  let t10091 := (target.y + (angleMod ((((884279719003555 : α) / (281474976710656 : α)) - t10078) - target.y)))
-  let t10093 := (target.z + (angleMod ((((884279719003555 : α) / (281474976710656 : α)) + t10080) - target.z)))
-  let t10094 := (t10080 - target.z)
-  let t10095 := (t10078 - target.y)
-  let t10096 := (t10076 - target.x)
-  let t10097 := (t10093 - target.z)
-  let t10098 := (t10091 - target.y)
-  let t10099 := (t10089 - target.x)
-  let t10104 := (((t10096 * t10096) + (t10095 * t10095)) + (t10094 * t10094))
-  let t10109 := (((t10099 * t10099) + (t10098 * t10098)) + (t10097 * t10097))
-  if t10109 < t10104 then
-    ⟨t10089, t10091, t10093⟩
+  let t10015 := (target.x + (angleMod (xyzRot.x - target.x)))
+  let t10017 := (target.y + (angleMod (xyzRot.y - target.y)))
+  let t10019 := (target.z + (angleMod (xyzRot.z - target.z)))
+  let t10028 := (target.x + (angleMod ((((884279719003555 : α) / (281474976710656 : α)) + t10015) - target.x)))
+  let t10030 := (target.y + (angleMod ((((884279719003555 : α) / (281474976710656 : α)) - t10017) - target.y)))
+  let t10032 := (target.z + (angleMod ((((884279719003555 : α) / (281474976710656 : α)) + t10019) - target.z)))
+  let t10033 := (t10019 - target.z)
+  let t10034 := (t10017 - target.y)
+  let t10035 := (t10015 - target.x)
+  let t10036 := (t10032 - target.z)
+  let t10037 := (t10030 - target.y)
+  let t10038 := (t10028 - target.x)
+  let t10043 := (((t10035 * t10035) + (t10034 * t10034)) + (t10033 * t10033))
+  let t10048 := (((t10038 * t10038) + (t10037 * t10037)) + (t10036 * t10036))
+  if t10048 < t10043 then
+    ⟨t10028, t10030, t10032⟩
   else
-    ⟨t10076, t10078, t10080⟩
+    ⟨t10015, t10017, t10019⟩
 
 /-- extracted from the C++ template at T = Sym; 2 path(s) -/
 def Euler.makeNear_ZYZr {α : Type} [Add α] [Sub α] [Mul α] [Div α] [LT α] [DecidableLT α] [OfNat α 281474976710656] [OfNat α 884279719003555] (angleMod : α → α) (a : V3 α) (t : V3 α) : ((V3 α) × Int) :=
-  let t10117 := (t.x + (angleMod (a.x - t.x)))
-  let t10119 := (t.y + (angleMod (a.y - t.y)))
-  let t10121 := (t.z + (angleMod (a.z - t.z)))
-  let t10129 := (t.x + (angleMod ((((884279719003555 : α) / (281474976710656 : α)) + t10117) - t.x)))
-  let t10131 := (t.y + (angleMod ((((884279719003555 : α) / (281474976710656 : α)) - t10119) - t.y)))
-  let t10133 := (t.z + (angleMod ((((884279719003555 : α) / (281474976710656 : α)) + t10121) - t.z)))
-  let t10134 := (t10121 - t.z)
-  let t10135 := (t10119 - t.y)
-  let t10136 := (t10117 - t.x)
-  let t10137 := (t10133 - t.z)
-  let t10138 := (t10131 - t.y)
-  let t10139 := (t10129 - t.x)
-  let t10144 := (((t10136 * t10136) + (t10135 * t10135)) + (t10134 * t10134))
-  let t10149 := (((t10139 * t10139) + (t10138 * t10138)) + (t10137 * t10137))
-  if t10149 < t10144 then
-    (⟨t10129, t10131, t10133⟩, (272 : Int))
+  let t10056 := (t.x + (angleMod (a.x - t.x)))
+  let t10058 := (t.y + (angleMod (a.y - t.y)))
+  let t10060 := (t.z + (angleMod (a.z - t.z)))
+  let t10068 := (t.x + (angleMod ((((884279719003555 : α) / (281474976710656 : α)) + t10056) - t.x)))
+  let t10070 := (t.y + (angleMod ((((884279719003555 : α) / (281474976710656 : α)) - t10058) - t.y)))
+  let t10072 := (t.z + (angleMod ((((884279719003555 : α) / (281474976710656 : α)) + t10060) - t.z)))
+  let t10073 := (t10060 - t.z)
+  let t10074 := (t10058 - t.y)
+  let t10075 := (t10056 - t.x)
+  let t10076 := (t10072 - t.z)
+  let t10077 := (t10070 - t.y)
+  let t10078 := (t10068 - t.x)
+  let t10083 := (((t10075 * t10075) + (t10074 * t10074)) + (t10073 * t10073))
+  let t10088 := (((t10078 * t10078) + (t10077 * t10077)) + (t10076 * t10076))
+  if t10088 < t10083 then
+    (⟨t10068, t10070, t10072⟩, (272 : Int))
   else
-    (⟨t10117, t10119, t10121⟩, (272 : Int))
+    (⟨t10056, t10058, t10060⟩, (272 : Int))
 
 /-- extracted from the C++ template at T = Sym; 2 path(s) -/
 def Euler.nearestRotation_ZXZr {α : Type} [Add α] [Sub α] [Mul α] [Div α] [LT α] [DecidableLT α] [OfNat α 281474976710656] [OfNat α 884279719003555] (angleMod : α → α) (xyzRot : V3 α) (target : V3 α) : (V3 α) :=
-  let t10076 := (target.x + (angleMod (xyzRot.x - target.x)))
-  let t10078 := (target.y + (angleMod (xyzRot.y - target.y)))
-  let t10080 := (target.z + (angleMod (xyzRot.z - target.z)))
-  let t10089 := (target.x + (angleMod ((((884279719003555 : α) / (281474976710656 : α)) + t10076) - target.x)))
-  let t10094 := (t10080 - target.z)
-  let t10095 := (t10078 - target.y)
-  let t10096 := (t10076 - target.x)
-  let t10099 := (t10089 - target.x)
-  let t10104 := (((t10096 * t10096) + (t10095 * t10095)) + (t10094 * t10094))
-  let t10155 := (target.y + (angleMod ((((884279719003555 : α) / (281474976710656 : α)) + t10078) - target.y)))
-  let t10157 := (target.z + (angleMod ((((884279719003555 : α) / (281474976710656 : α)) - t10080) - target.z)))
-  let t10158 := (t10157 - target.z)
-  let t10159 := (t10155 - target.y)
-  let t10163 := (((t10099 * t10099) + (t10159 * t10159)) + (t10158 * t10158))
-  if t10163 < t10104 then
-    ⟨t10089, t10155, t10157⟩
+  let t10015 := (target.x + (angleMod (xyzRot.x - target.x)))
+  let t10017 := (target.y + (angleMod (xyzRot.y - target.y)))
+  let t10019 := (target.z + (angleMod (xyzRot.z - target.z)))
+  let t10028 := (target.x + (angleMod ((((884279719003555 : α) / (281474976710656 : α)) + t10015) - target.x)))
+  let t10033 := (t10019 - target.z)
+  let t10034 := (t10017 - target.y)
+  let t10035 := (t10015 - target.x)
+  let t10038 := (t10028 - target.x)
+  let t10043 := (((t10035 * t10035) + (t10034 * t10034)) + (t10033 * t10033))
+  let t10094 := (target.y + (angleMod ((((884279719003555 : α) / (281474976710656 : α)) + t10017) - target.y)))
+  let t10096 := (target.z + (angleMod ((((884279719003555 : α) / (281474976710656 : α)) - t10019) - target.z)))
+  let t10097 := (t10096 - target.z)
+  let t10098 := (t10094 - target.y)
+  let t10102 := (((t10038 * t10038) + (t10098 * t10098)) + (t10097 * t10097))
+  if t10102 < t10043 then
+    ⟨t10028, t10094, t10096⟩
   else
-    ⟨t10076, t10078, t10080⟩
+    ⟨t10015, t10017, t10019⟩
 
 /-- extracted from the C++ template at T = Sym; 2 path(s) -/
 def Euler.makeNear_ZXZr {α : Type} [Add α] [Sub α] [Mul α] [Div α] [LT α] [DecidableLT α] [OfNat α 281474976710656] [OfNat α 884279719003555] (angleMod : α → α) (a : V3 α) (t : V3 α) : ((V3 α) × Int) :=
-  let t10117 := (t.x + (angleMod (a.x - t.x)))
-  let t10119 := (t.y + (angleMod (a.y - t.y)))
-  let t10121 := (t.z + (angleMod (a.z - t.z)))
-  let t10129 := (t.x + (angleMod ((((884279719003555 : α) / (281474976710656 : α)) + t10117) - t.x)))
-  let t10131 := (t.y + (angleMod ((((884279719003555 : α) / (281474976710656 : α)) - t10119) - t.y)))
-  let t10133 := (t.z + (angleMod ((((884279719003555 : α) / (281474976710656 : α)) + t10121) - t.z)))
-  let t10134 := (t10121 - t.z)
-  let t10135 := (t10119 - t.y)
-  let t10136 := (t10117 - t.x)
-  let t10137 := (t10133 - t.z)
-  let t10138 := (t10131 - t.y)
-  let t10139 := (t10129 - t.x)
-  let t10165 := (((t10136 * t10136) + (t10134 * t10134)) + (t10135 * t10135))
-  let t10167 := (((t10139 * t10139) + (t10137 * t10137)) + (t10138 * t10138))
-  if t10167 < t10165 then
-    (⟨t10129, t10131, t10133⟩, (16 : Int))
+  let t10056 := (t.x + (angleMod (a.x - t.x)))
+  let t10058 := (t.y + (angleMod (a.y - t.y)))
+  let t10060 := (t.z + (angleMod (a.z - t.z)))
+  let t10068 := (t.x + (angleMod ((((884279719003555 : α) / (281474976710656 : α)) + t10056) - t.x)))
+  let t10070 := (t.y + (angleMod ((((884279719003555 : α) / (281474976710656 : α)) - t10058) - t.y)))
+  let t10072 := (t.z + (angleMod ((((884279719003555 : α) / (281474976710656 : α)) + t10060) - t.z)))
+  let t10073 := (t10060 - t.z)
+  let t10074 := (t10058 - t.y)
+  let t10075 := (t10056 - t.x)
+  let t10076 := (t10072 - t.z)
+  let t10077 := (t10070 - t.y)
+  let t10078 := (t10068 - t.x)
+  let t10104 := (((t10075 * t10075) + (t10073 * t10073)) + (t10074 * t10074))
+  let t10106 := (((t10078 * t10078) + (t10076 * t10076)) + (t10077 * t10077))
+  if t10106 < t10104 then
+    (⟨t10068, t10070, t10072⟩, (16 : Int))
   else
-    (⟨t10117, t10119, t10121⟩, (16 : Int))
+    (⟨t10056, t10058, t10060⟩, (16 : Int))
 
 end ImathVerif.Gen
